@@ -4,8 +4,21 @@
   Theorems about `Model/Engine` + `Model/Fields`: rendering a typed assignment as canonical tokens
   and parsing it returns exactly that assignment over the defaults, for any number of fields, any
   order of the option segments, and both spellings.
+
+  Layout:
+    1. one occurrence (`take_action`): store actions and the boolean action, closure counters threaded
+    2. the whole command line (`c02_engine_roundtrip`): either spelling, negative numbers, any table
+    3. last-writer lookup, order independence, spelling independence
+    4. canonical tokens convert back (per base type; plain negative integers are argument tokens)
+    5. heterogeneous tuples (the stateful `parse_tuple` closure)
+    6. per annotation: `get_arg_options` / `postprocess` (every supported annotation)
+    7. defaults: what the namespace holds for an unmentioned field, `finish` is quiet
+    8. the headline: `c02_roundtrip` (closed statement for a flat dataclass) and its corollaries
+    9. what the code does NOT satisfy: `Optional[Literal]` / `List[Literal]` / non-string `choice`
+   10. non-vacuity examples
 -/
-import SpVerif.Lemmas.Engine
+import SpVerif.Lemmas.EngineMore
+import SpVerif.Props.C04
 import SpVerif.Model.Fields
 import Mathlib.Data.Nat.Digits.Defs
 namespace SpVerif.C02
@@ -25,7 +38,40 @@ theorem getValues_eq (fenv : FEnv) (act : Act) (i : Nat) (cs cs' : List Nat) (to
   unfold ConvAll at h
   rw [getValues_ok_iff, h]
 
-/-- one store occurrence writes exactly `segVal` at the action's destination -/
+/-- what an occurrence with converted items `vals` leaves at the action's destination:
+    `_get_values`' packaging for a store action; for the boolean action the converted word, or —
+    for the bare flag — `True` for a positive and `False` for a negative option string -/
+def storedVal (a : Act) (opt : Str) (vals : List Scalar) : Val :=
+  match a.kind with
+  | .boolOpt negs => (match vals with
+    | [.bool b] => .sc (.bool b)
+    | _ => .sc (.bool (!negs.contains opt)))
+  | _ => segVal a.nargs vals
+
+/-- the occurrence is one `take_action` accepts: a `store` action, or the boolean action used
+    through a positive option string, bare or with one boolean word -/
+def KindOk (a : Act) (opt : Str) (vals : List Scalar) : Prop :=
+  a.kind = .store ∨
+    ∃ negs, a.kind = .boolOpt negs ∧ a.nargs = .opt ∧ negs.contains opt = false ∧
+      (vals = [] ∨ ∃ b, vals = [.bool b])
+
+/-- one accepted occurrence writes exactly `storedVal` at the action's destination -/
+theorem takeAction_ok (fenv : FEnv) (tbl : List Act) (st : St) (i : Nat) (o : Str)
+    (toks : List Str) (act : Act) (vs : List Scalar) (cs' : List Nat)
+    (hact : tbl[i]? = some act) (hk : KindOk act o vs)
+    (hconv : ConvAll fenv act i st.counters toks vs cs') :
+    takeAction fenv tbl st i o toks =
+      .ok { st with ns := setKey st.ns act.dest (storedVal act o vs), seen := i :: st.seen,
+                    counters := cs' } := by
+  unfold takeAction
+  rcases hk with hk | ⟨negs, hk, hn, hneg, hv⟩
+  · simp only [hact, hk, getValues_eq fenv act i st.counters cs' toks vs hconv, storedVal]
+  · simp only [hact, hk, getValues_eq fenv act i st.counters cs' toks vs hconv, storedVal, hn, hneg]
+    rcases hv with rfl | ⟨b, rfl⟩
+    · simp [segVal]
+    · simp [segVal]
+
+/-- the old statement (store actions) is the special case -/
 theorem takeAction_store (fenv : FEnv) (tbl : List Act) (st : St) (i : Nat) (o : Str)
     (toks : List Str) (act : Act) (vs : List Scalar) (cs' : List Nat)
     (hact : tbl[i]? = some act) (hk : act.kind = .store)
@@ -33,58 +79,210 @@ theorem takeAction_store (fenv : FEnv) (tbl : List Act) (st : St) (i : Nat) (o :
     takeAction fenv tbl st i o toks =
       .ok { st with ns := setKey st.ns act.dest (segVal act.nargs vs), seen := i :: st.seen,
                     counters := cs' } := by
-  unfold takeAction
-  simp only [hact, hk, getValues_eq fenv act i st.counters cs' toks vs hconv]
+  rw [takeAction_ok fenv tbl st i o toks act vs cs' hact (Or.inl hk) hconv]
+  simp [storedVal, hk]
+
+/-- **the boolean action, positive option with a word** (`--flag False`): the word's value is stored -/
+theorem takeAction_boolOpt (fenv : FEnv) (tbl : List Act) (st : St) (i : Nat) (o t : Str) (act : Act)
+    (negs : List Str) (b : Bool) (hact : tbl[i]? = some act) (hk : act.kind = .boolOpt negs)
+    (hn : act.nargs = .opt) (hc : act.conv = .base .bool) (hch : act.choices = none)
+    (hpos : negs.contains o = false) (ht : str2bool t = some b) :
+    takeAction fenv tbl st i o [t] =
+      .ok { st with ns := setKey st.ns act.dest (.sc (.bool b)), seen := i :: st.seen } := by
+  have hconv : ConvAll fenv act i st.counters [t] [.bool b] st.counters := by
+    simp [ConvAll, getValuesList, getValue, hc, Conv.apply, BConv.apply, ht, hch]
+  rw [takeAction_ok fenv tbl st i o [t] act [.bool b] st.counters hact
+    (Or.inr ⟨negs, hk, hn, hpos, Or.inr ⟨b, rfl⟩⟩) hconv]
+  simp [storedVal, hk]
 
 /-! ### 2. whole command line -/
 
-/-- a fully specified segment: which action, the tokens, and the scalars they denote -/
+/-- `n` successful calls of the `parse_tuple` closure of action `i` -/
+def bumpN (cs : List Nat) (i : Nat) : Nat → List Nat
+  | 0 => cs
+  | n + 1 => bumpN (bump cs i) i n
+
+/-- the closure counters after one accepted occurrence: a `parse_tuple` closure was called once per
+    token, every other `type=` callable is stateless -/
+def segCounters (tbl : List Act) (cs : List Nat) (s : Seg) : List Nat :=
+  match tbl[s.idx]? with
+  | some a => (match a.conv with
+    | .tupleCounter _ => bumpN cs s.idx s.toks.length
+    | _ => cs)
+  | none => cs
+
+/-- a fully specified segment: which action, the tokens, the scalars they denote, the spelling -/
 structure VSeg where
   seg : Seg
   vals : List Scalar
+  eq : Bool := false
+
+def VSeg.eseg (v : VSeg) : ESeg := ⟨v.seg, v.eq⟩
 
 /-- namespace after all segments: left-to-right `setattr` -/
 def storeAll (tbl : List Act) (ns : List (Str × Val)) : List VSeg → List (Str × Val)
   | [] => ns
   | v :: vs => match tbl[v.seg.idx]? with
-    | some a => storeAll tbl (setKey ns a.dest (segVal a.nargs v.vals)) vs
+    | some a => storeAll tbl (setKey ns a.dest (storedVal a v.seg.opt v.vals)) vs
     | none => storeAll tbl ns vs
 
-/-- every segment is a `store` occurrence whose tokens convert; counters are left alone
-    (stateless `type=` callables: everything except heterogeneous tuples) -/
-structure SegOk (fenv : FEnv) (tbl : List Act) (cs : List Nat) (v : VSeg) : Prop where
-  store : ∃ a, tbl[v.seg.idx]? = some a ∧ a.kind = .store ∧ arityOk a.nargs v.seg.toks.length ∧
-    ConvAll fenv a v.seg.idx cs v.seg.toks v.vals cs
+/-- the closure counters after all segments -/
+def countersAll (tbl : List Act) (cs : List Nat) (vsegs : List VSeg) : List Nat :=
+  (vsegs.map (·.seg)).foldl (segCounters tbl) cs
 
-theorem applySegs_store (fenv : FEnv) (tbl : List Act) (vsegs : List VSeg) (st : St)
-    (h : ∀ v ∈ vsegs, SegOk fenv tbl st.counters v) :
+/-- every segment is an occurrence `take_action` accepts whose tokens fit `nargs` and convert —
+    from ANY aligned state of the `parse_tuple` closure counters (so heterogeneous tuples, whose
+    closure is stateful, are included; stateless converters ignore the counters) -/
+structure SegOk (fenv : FEnv) (tbl : List Act) (v : VSeg) : Prop where
+  ok : ∃ a, tbl[v.seg.idx]? = some a ∧ KindOk a v.seg.opt v.vals ∧ arityOk a.nargs v.seg.toks.length ∧
+    ∀ cs, C04.Aligned tbl cs → ConvAll fenv a v.seg.idx cs v.seg.toks v.vals (segCounters tbl cs v.seg)
+
+theorem kindOk_ne_help (a : Act) (o : Str) (vs : List Scalar) (h : KindOk a o vs) : a.kind ≠ .help := by
+  rcases h with h | ⟨negs, h, _⟩ <;> rw [h] <;> simp
+
+theorem arityOk_num (n : NArgs) (k : Nat) (h : arityOk n k) : ∀ m, n = .num m → k = m := by
+  intro m hm; subst hm; exact h
+
+theorem applySegs_ok (fenv : FEnv) (tbl : List Act) (vsegs : List VSeg) (st : St)
+    (hal : C04.Aligned tbl st.counters) (h : ∀ v ∈ vsegs, SegOk fenv tbl v) :
     applySegs fenv tbl st (vsegs.map (·.seg)) =
       .ok { ns := storeAll tbl st.ns vsegs, extras := st.extras,
-            seen := (vsegs.map (·.seg.idx)).reverse ++ st.seen, counters := st.counters } := by
+            seen := (vsegs.map (·.seg.idx)).reverse ++ st.seen,
+            counters := countersAll tbl st.counters vsegs } ∧
+      C04.Aligned tbl (countersAll tbl st.counters vsegs) := by
   induction vsegs generalizing st with
-  | nil => simp [applySegs, storeAll]
+  | nil => exact ⟨by simp [applySegs, storeAll, countersAll], hal⟩
   | cons v vs ih =>
-    obtain ⟨a, ha, hk, _, hconv⟩ := (h v (by simp)).store
-    simp only [List.map_cons, applySegs]
-    rw [takeAction_store fenv tbl st v.seg.idx v.seg.opt v.seg.toks a v.vals st.counters ha hk hconv]
-    have := ih { ns := setKey st.ns a.dest (segVal a.nargs v.vals), extras := st.extras,
-                 seen := v.seg.idx :: st.seen, counters := st.counters }
-      (fun x hx => h x (by simp [hx]))
-    simp only at this ⊢
-    rw [this]
-    simp [storeAll, ha]
+    obtain ⟨a, ha, hk, har, hconv⟩ := (h v (by simp)).ok
+    have hstep := takeAction_ok fenv tbl st v.seg.idx v.seg.opt v.seg.toks a v.vals _ ha hk
+      (hconv st.counters hal)
+    have hal' : C04.Aligned tbl (segCounters tbl st.counters v.seg) := by
+      have := C04.takeAction_aligned fenv tbl st _ v.seg.idx v.seg.opt v.seg.toks hal
+        (fun act m hact hm => by
+          rw [ha] at hact; cases hact
+          exact arityOk_num _ _ har m hm) hstep
+      exact this
+    obtain ⟨ih1, ih2⟩ := ih
+      { ns := setKey st.ns a.dest (storedVal a v.seg.opt v.vals), extras := st.extras,
+        seen := v.seg.idx :: st.seen, counters := segCounters tbl st.counters v.seg }
+      hal' (fun x hx => h x (by simp [hx]))
+    simp only [List.map_cons, applySegs, hstep]
+    simp only at ih1 ih2 ⊢
+    refine ⟨?_, by simpa [countersAll] using ih2⟩
+    rw [ih1]
+    simp [storeAll, ha, countersAll]
 
-/-- `finish` changes nothing when every required action was seen and no unseen action has a
-    string default that `type=` would rewrite -/
-def FinishQuiet (fenv : FEnv) (st : St) (a : Act) (i : Nat) : Prop :=
-  st.seen.contains i = true ∨
-    (a.required = false ∧
-      ∀ s, a.default = some (.sc (.str s)) → st.ns.lookup a.dest = some (.sc (.str s)) →
-        a.conv.apply fenv (st.counters.getD i 0) s = .ok (.str s) ∧
-        setKey st.ns a.dest (.sc (.str s)) = st.ns)
+/-! #### `finish`: required check + conversion of string defaults -/
+
+/-- argparse re-converts a string default of an unseen action with `type=`; the default is *quiet*
+    when that returns the same string -/
+def QuietDefault (fenv : FEnv) (a : Act) : Prop :=
+  ∀ s, a.default = some (.sc (.str s)) → ∀ k, a.conv.apply fenv k s = .ok (.str s)
+
+/-- `finish` has nothing to do for action `i`: it was seen, or it is not required and its default
+    is quiet -/
+def FinishQuiet (fenv : FEnv) (seen : List Nat) (a : Act) (i : Nat) : Prop :=
+  seen.contains i = true ∨ (a.required = false ∧ QuietDefault fenv a)
+
+/-- no two entries of the namespace have the same key (true of every namespace the engine builds) -/
+def KeysNodup (ns : List (Str × Val)) : Prop := (ns.map (·.1)).Nodup
+
+theorem setKey_keys (ns : List (Str × Val)) (k : Str) (v : Val) :
+    (setKey ns k v).map (·.1) =
+      if ns.any (fun p => p.1 = k) then ns.map (·.1) else ns.map (·.1) ++ [k] := by
+  unfold setKey
+  split
+  · simp only [List.map_map]
+    apply List.map_congr_left
+    intro p _
+    simp only [Function.comp_apply]
+    split
+    · rename_i h; exact h.symm
+    · rfl
+  · simp
+
+theorem setKey_nodup (ns : List (Str × Val)) (k : Str) (v : Val) (h : KeysNodup ns) :
+    KeysNodup (setKey ns k v) := by
+  unfold KeysNodup at h ⊢
+  rw [setKey_keys]
+  split
+  · exact h
+  · rename_i hany
+    rw [List.nodup_append]
+    refine ⟨h, by simp, ?_⟩
+    intro a ha b hb
+    simp only [List.mem_singleton] at hb
+    subst hb
+    intro hab
+    subst hab
+    apply hany
+    simp only [List.mem_map] at ha
+    obtain ⟨p, hp, hpk⟩ := ha
+    simp only [List.any_eq_true, decide_eq_true_eq]
+    exact ⟨p, hp, hpk⟩
+
+theorem initNs_nodup (tbl : List Act) : KeysNodup (initNs tbl) := by
+  unfold initNs
+  have key : ∀ (l : List Act) (acc : List (Str × Val)), KeysNodup acc →
+      KeysNodup (l.foldl (fun ns a => match a.default with
+        | some d => if ns.any (fun p => p.1 = a.dest) then ns else ns ++ [(a.dest, d)]
+        | none => ns) acc) := by
+    intro l
+    induction l with
+    | nil => intro acc h; exact h
+    | cons a rest ih =>
+      intro acc h
+      simp only [List.foldl_cons]
+      apply ih
+      cases a.default with
+      | none => exact h
+      | some d =>
+        simp only
+        split
+        · exact h
+        · rename_i hany
+          have := setKey_nodup acc a.dest d h
+          unfold setKey at this
+          simpa [hany] using this
+  exact key tbl [] (by simp [KeysNodup])
+
+/-- rewriting a key with the value it already has changes nothing -/
+theorem setKey_self (ns : List (Str × Val)) (k : Str) (v : Val) (hnd : KeysNodup ns)
+    (hl : ns.lookup k = some v) : setKey ns k v = ns := by
+  have hmem := lookup_some_mem ns k v hl
+  have hany : ns.any (fun p => decide (p.1 = k)) = true := by
+    simp only [List.any_eq_true, decide_eq_true_eq]
+    exact ⟨(k, v), hmem, rfl⟩
+  unfold setKey
+  simp only [hany, ↓reduceIte]
+  have : ∀ p ∈ ns, (if p.1 = k then (k, v) else p) = p := by
+    intro p hp
+    split
+    · rename_i hpk
+      -- two entries with key k in a key-nodup list are the same entry
+      obtain ⟨pk, pv⟩ := p
+      simp only at hpk
+      subst hpk
+      have hinj : ∀ (l : List (Str × Val)), (l.map (·.1)).Nodup → (pk, v) ∈ l → (pk, pv) ∈ l → v = pv := by
+        intro l
+        induction l with
+        | nil => intro _ h1 _; simp at h1
+        | cons q qs ih =>
+          intro hn h1 h2
+          simp only [List.map_cons, List.nodup_cons, List.mem_map, not_exists, not_and] at hn
+          rcases List.mem_cons.mp h1 with e1 | m1 <;> rcases List.mem_cons.mp h2 with e2 | m2
+          · rw [← e1] at e2; exact (Prod.mk.inj e2).2.symm
+          · subst e1; exact (hn.1 (pk, pv) m2 rfl).elim
+          · subst e2; exact (hn.1 (pk, v) m1 rfl).elim
+          · exact ih hn.2 m1 m2
+      rw [hinj ns hnd hmem hp]
+    · rfl
+  conv => rhs; rw [← List.map_id ns]
+  exact List.map_congr_left (fun p hp => by simpa using this p hp)
 
 theorem finish_quiet (fenv : FEnv) (tbl : List Act) (st : St) (l : List (Act × Nat))
-    (h : ∀ p ∈ l, FinishQuiet fenv st p.1 p.2) : finish fenv tbl st l = .ok st := by
+    (hnd : KeysNodup st.ns)
+    (h : ∀ p ∈ l, FinishQuiet fenv st.seen p.1 p.2) : finish fenv tbl st l = .ok st := by
   induction l with
   | nil => rfl
   | cons p ps ih =>
@@ -97,9 +295,6 @@ theorem finish_quiet (fenv : FEnv) (tbl : List Act) (st : St) (l : List (Act × 
       · exact absurd hs' hs
       · have hs2 : st.seen.contains i = false := by simpa using hs
         have hreq' : a.required = false := hreq
-        have hd' : ∀ s, a.default = some (.sc (.str s)) → st.ns.lookup a.dest = some (.sc (.str s)) →
-            a.conv.apply fenv (st.counters.getD i 0) s = .ok (.str s) ∧
-            setKey st.ns a.dest (.sc (.str s)) = st.ns := hd
         simp only [hs2, hreq', Bool.false_eq_true, ↓reduceIte]
         cases hdef : a.default with
         | none => exact ih'
@@ -112,7 +307,8 @@ theorem finish_quiet (fenv : FEnv) (tbl : List Act) (st : St) (l : List (Act × 
             | str s =>
               simp only
               by_cases hl : st.ns.lookup a.dest = some (.sc (.str s))
-              · obtain ⟨hc, hk⟩ := hd' s hdef hl
+              · have hc := hd s hdef (st.counters.getD i 0)
+                have hk := setKey_self st.ns a.dest _ hnd hl
                 simp only [hl, ↓reduceIte, hc, hk]
                 exact ih'
               · simp only [hl, ↓reduceIte]
@@ -124,40 +320,59 @@ theorem finish_quiet (fenv : FEnv) (tbl : List Act) (st : St) (l : List (Act × 
             | path _ => exact ih'
             | enum _ _ => exact ih'
 
+theorem storeAll_nodup (tbl : List Act) (ns : List (Str × Val)) (vsegs : List VSeg)
+    (h : KeysNodup ns) : KeysNodup (storeAll tbl ns vsegs) := by
+  induction vsegs generalizing ns with
+  | nil => exact h
+  | cons v vs ih =>
+    simp only [storeAll]
+    split
+    · exact ih _ (setKey_nodup ns _ _ h)
+    · exact ih _ h
+
 /-- **C02 (engine round trip).** A command line made of option segments — each an exact option
-    string followed by value tokens that do not start with `-`, fitting the action's `nargs`, and
-    converting under its `type=` — is accepted, leaves no leftovers, and stores for every segment
-    exactly the converted value; everything else keeps its initial (default) entry.
-    Any number of segments, any order, any table. -/
+    string with its value tokens, written `--opt tok₁ … tokₖ` (every token one argparse lexes as an
+    argument: no leading `-`, or a plain negative number) or `--opt=tok` (any token), fitting the
+    action's `nargs` and converting under its `type=` (stateless, or the stateful `parse_tuple`
+    closure from any aligned counter state), on a store action or the boolean action — is accepted,
+    leaves no leftovers, and stores for every segment exactly the converted value; everything else
+    keeps its initial (default) entry. Any number of segments, any order, any table. -/
 theorem c02_engine_roundtrip (fenv : FEnv) (tbl : List Act) (cs : List Nat) (vsegs : List VSeg)
-    (hlex : ∀ v ∈ vsegs, LexOk tbl v.seg)
-    (hok : ∀ v ∈ vsegs, SegOk fenv tbl cs v)
-    (hfin : ∀ p ∈ tbl.zipIdx, FinishQuiet fenv
-      { ns := storeAll tbl (initNs tbl) vsegs, extras := [],
-        seen := (vsegs.map (·.seg.idx)).reverse ++ [], counters := cs } p.1 p.2) :
-    runStrict fenv tbl cs (render (vsegs.map (·.seg))) =
-      .ok (storeAll tbl (initNs tbl) vsegs) [] cs := by
+    (hal : C04.Aligned tbl cs)
+    (hlex : ∀ v ∈ vsegs, LexOk' tbl v.eseg)
+    (hok : ∀ v ∈ vsegs, SegOk fenv tbl v)
+    (hfin : ∀ p ∈ tbl.zipIdx, (∃ v ∈ vsegs, v.seg.idx = p.2) ∨
+      (p.1.required = false ∧ QuietDefault fenv p.1)) :
+    runStrict fenv tbl cs (render' (vsegs.map (·.eseg))) =
+      .ok (storeAll tbl (initNs tbl) vsegs) [] (countersAll tbl cs vsegs) := by
   unfold runStrict run
-  rw [lexAll_render tbl (vsegs.map (·.seg)) (by
+  rw [lexAll_render' tbl (vsegs.map (·.eseg)) (by
     intro s hs
     obtain ⟨v, hv, rfl⟩ := List.mem_map.mp hs
     exact hlex v hv)]
   simp only
-  rw [consume_render fenv tbl (vsegs.map (·.seg)) _ _ (by
-        have : (vsegs.map (·.seg)).length ≤ (render (vsegs.map (·.seg))).length := by
-          generalize vsegs.map (·.seg) = segs
-          induction segs with
-          | nil => simp
-          | cons s ss ih => simp only [render, List.flatMap_cons, renderSeg, List.length_append,
-              List.length_cons] at ih ⊢; omega
+  rw [consume_render' fenv tbl (vsegs.map (·.eseg)) _ _ (by
+        have := segs_le_render' (vsegs.map (·.eseg))
         omega) (by
         intro s hs
         obtain ⟨v, hv, rfl⟩ := List.mem_map.mp hs
-        obtain ⟨a, ha, hk, har, _⟩ := (hok v hv).store
-        exact ⟨a, ha, by rw [hk]; decide, har⟩)]
-  rw [applySegs_store fenv tbl vsegs _ (by simpa using hok)]
+        obtain ⟨a, ha, hk, har, _⟩ := (hok v hv).ok
+        exact ⟨a, ha, kindOk_ne_help a _ _ hk, har⟩)]
+  have hmap : (vsegs.map (·.eseg)).map (·.seg) = vsegs.map (·.seg) := by
+    simp [List.map_map, Function.comp_def, VSeg.eseg]
+  rw [hmap]
+  obtain ⟨happ, _⟩ := applySegs_ok fenv tbl vsegs
+    { ns := initNs tbl, extras := [], seen := [], counters := cs } hal hok
+  rw [happ]
   simp only
-  rw [finish_quiet fenv tbl _ _ hfin]
+  rw [finish_quiet fenv tbl _ _ (storeAll_nodup tbl _ vsegs (initNs_nodup tbl)) (by
+    intro p hp
+    rcases hfin p hp with ⟨v, hv, hvi⟩ | hq
+    · left
+      simp only [List.append_nil, List.contains_eq_mem, List.mem_reverse, List.mem_map,
+        decide_eq_true_eq]
+      exact ⟨v, hv, hvi⟩
+    · exact Or.inr hq)]
 
 /-! ### 3. what a later lookup sees: the last segment for that destination, else the default -/
 
@@ -253,7 +468,7 @@ theorem storeAll_untouched (tbl : List Act) (ns : List (Str × Val)) (vsegs : Li
 theorem storeAll_written (tbl : List Act) (ns : List (Str × Val)) (pre post : List VSeg)
     (v : VSeg) (a : Act) (ha : tbl[v.seg.idx]? = some a)
     (hpost : ∀ w ∈ post, ∀ b, tbl[w.seg.idx]? = some b → b.dest ≠ a.dest) :
-    (storeAll tbl ns (pre ++ v :: post)).lookup a.dest = some (segVal a.nargs v.vals) := by
+    (storeAll tbl ns (pre ++ v :: post)).lookup a.dest = some (storedVal a v.seg.opt v.vals) := by
   induction pre generalizing ns with
   | nil =>
     simp only [List.nil_append, storeAll, ha]
@@ -273,7 +488,7 @@ theorem distinct_symm (tbl : List Act) (v w : VSeg) (h : Distinct tbl v w) : Dis
 theorem lookup_of_writer (tbl : List Act) (ns : List (Str × Val)) (l : List VSeg)
     (hl : l.Pairwise (Distinct tbl)) (v : VSeg) (hv : v ∈ l) (a : Act)
     (ha : tbl[v.seg.idx]? = some a) :
-    (storeAll tbl ns l).lookup a.dest = some (segVal a.nargs v.vals) := by
+    (storeAll tbl ns l).lookup a.dest = some (storedVal a v.seg.opt v.vals) := by
   obtain ⟨pre, post, rfl⟩ := List.append_of_mem hv
   apply storeAll_written tbl ns pre post v a ha
   intro w hw b hb
@@ -434,6 +649,54 @@ theorem c02_int_roundtrip (i : Int) : parseInt (printInt i) = .ok (.int i) := by
     rw [Int.negSucc_eq]
     congr 2
 
+
+/-! #### plain negative integers are argument tokens (the property keeps them) -/
+
+theorem printNat_digits (n : Nat) : ∀ c ∈ printNat n, isDigit c = true := by
+  unfold printNat
+  split
+  · intro c hc; simp at hc; subst hc; decide
+  · intro c hc
+    simp only [List.mem_map, List.mem_reverse] at hc
+    obtain ⟨d, hd, rfl⟩ := hc
+    exact (isDigit_digitChar d (Nat.digits_lt_base (by norm_num) hd)).1
+
+theorem digit_ne_eq (c : Char) (h : isDigit c = true) : c ≠ '=' := by
+  intro hh; subst hh; simp [isDigit] at h
+
+/-- `str(i)` of a negative integer matches argparse's negative-number pattern and has no `=` -/
+theorem printInt_neg (n : Nat) : looksNegNumber (printInt (.negSucc n)) = true ∧
+    splitEq (printInt (.negSucc n)) = none := by
+  obtain ⟨c, r, hcr, hdig⟩ := printNat_head_digit (n + 1)
+  have hall := printNat_digits (n + 1)
+  constructor
+  · unfold printInt looksNegNumber
+    simp only [Bool.or_eq_true, Bool.and_eq_true]
+    left
+    refine ⟨by rw [hcr]; rfl, ?_⟩
+    simp only [allDigits, List.all_eq_true]
+    exact hall
+  · apply splitEq_none_of_not_mem
+    unfold printInt
+    simp only [List.mem_cons, not_or]
+    refine ⟨by decide, fun hm => digit_ne_eq _ (hall _ hm) rfl⟩
+
+/-- **every integer's canonical token is one argparse lexes as an argument** — the non-negative
+    ones start with a digit, the negative ones are plain negative numbers (no table simple-parsing
+    builds has an option string that looks like a number) -/
+theorem int_argTok (tbl : List Act) (htbl : OptsNonNumeric tbl) (i : Int) : ArgTok tbl (printInt i) := by
+  cases i with
+  | ofNat n =>
+    apply argTok_of_nodash
+    obtain ⟨c, r, hcr, hdig⟩ := printNat_head_digit n
+    show (printNat n).head? ≠ some '-'
+    rw [hcr]
+    simp only [List.head?_cons, ne_eq, Option.some.injEq]
+    intro hh; subst hh; simp [isDigit] at hdig
+  | negSucc n =>
+    obtain ⟨h1, h2⟩ := printInt_neg n
+    exact argTok_of_neg tbl _ h1 h2 htbl
+
 /-- strings come back verbatim -/
 theorem c02_str_roundtrip (fenv : FEnv) (s : Str) : BConv.apply fenv .str s = .ok (.str s) := rfl
 
@@ -456,7 +719,7 @@ theorem c02_float_roundtrip (fenv : FEnv) (r : Str) (h : fenv.lookup r = some (s
     BConv.apply fenv .float r = .ok (.float r) := by
   simp [BConv.apply, h]
 
-/-! ### 4b. per annotation: the field's `type=` reads the canonical tokens back and `postprocess`
+/-! ### 4b. typed values, their tokens; per annotation (first lemmas): the field's `type=` reads the canonical tokens back and `postprocess`
       returns the typed value (ties `get_arg_options` / `postprocess` to the value written) -/
 
 /-- canonical token of a scalar: `str(v)`, enum members by name -/
@@ -572,16 +835,11 @@ theorem c02_field_optional (name : Str) (b : BTy) (d : DefaultV) (v : Scalar) :
   · simp [postprocess, f, segVal]
   · simp [postprocess, f, segVal]
 
-/-! ### 4a. heterogeneous tuples: the `parse_tuple` closure (stateful `type=` callable)
+/-! ### 5. heterogeneous tuples: the `parse_tuple` closure (stateful `type=` callable)
 
   Since fix b1a5942 the closure's call counter wraps (`item k mod n`), so whenever the counter is a
   multiple of the arity — which it is at the start of every occurrence — the `n` tokens of one
   occurrence are converted with the `n` item types in order. -/
-
-/-- `n` successful calls of the closure of action `i` -/
-def bumpN (cs : List Nat) (i : Nat) : Nat → List Nat
-  | 0 => cs
-  | n + 1 => bumpN (bump cs i) i n
 
 theorem bumpN_getD (cs : List Nat) (i : Nat) (hi : i < cs.length) (n : Nat) :
     (bumpN cs i n).getD i 0 = cs.getD i 0 + n := by
@@ -685,46 +943,787 @@ theorem c02_field_tuple (name : Str) (bs : List BTy) (hne : allEq (bs.map ITy.ba
     rw [this]
     simp [postprocess, f, listToTuple]
 
-/-! ### 4b. the whole flat pipeline: `parseFlat` = `postprocess` over what the engine stored
 
-  `parse(Cls, args=render segs)` for one flat dataclass: `tableOf` (one action per field after the
-  built-in help), `runStrict`, then `postprocess` per field — composed, for any number of fields and
+/-! ### 6. per annotation: the occurrence is accepted (`SegOk`) and `postprocess` returns the value
+
+  One lemma per shape of `get_arg_options`' answer; `field_segOk` dispatches over every supported
+  annotation. -/
+
+theorem segCounters_stateless (tbl : List Act) (cs : List Nat) (s : Seg) (a : Act)
+    (ha : tbl[s.idx]? = some a) (hc : ∀ bs, a.conv ≠ .tupleCounter bs) : segCounters tbl cs s = cs := by
+  have key : ∀ (c : Conv), (∀ bs, c ≠ .tupleCounter bs) →
+      (match c with
+       | .tupleCounter _ => bumpN cs s.idx s.toks.length
+       | _ => cs) = cs := by
+    intro c hc'
+    cases c with
+    | base b => rfl
+    | union l => rfl
+    | tupleCounter bs => exact absurd rfl (hc' bs)
+  unfold segCounters
+  rw [ha]
+  exact key a.conv hc
+
+/-- **stateless base converter, no `choices`** (plain T, `Optional[T]`, `List[T]`, `Tuple[T, ...]`,
+    homogeneous `Tuple[T, T]`, and the boolean action): the canonical tokens of values of type `b`
+    are accepted and converted back -/
+theorem segOk_base (fenv : FEnv) (tbl : List Act) (idx : Nat) (opt : Str) (a : Act) (b : BTy)
+    (raw : List Scalar) (eq : Bool) (ha : tbl[idx]? = some a) (hk : KindOk a opt raw)
+    (hconv : a.conv = .base (bconvOf b)) (hch : a.choices = none)
+    (har : arityOk a.nargs raw.length) (hty : ∀ s ∈ raw, HasBTy fenv s b) :
+    SegOk fenv tbl ⟨⟨idx, opt, raw.map tokenOf⟩, raw, eq⟩ := by
+  refine ⟨a, ha, hk, by simpa using har, fun cs _ => ?_⟩
+  rw [segCounters_stateless tbl cs _ a ha (by rw [hconv]; simp)]
+  exact getValuesList_tokens fenv a idx cs b hconv hch raw hty
+
+/-- **`type=str` under `choices`** (plain Enum, Literal): a listed name is accepted as that string -/
+theorem segOk_choice (fenv : FEnv) (tbl : List Act) (idx : Nat) (opt : Str) (a : Act)
+    (names : List Str) (name : Str) (eq : Bool) (ha : tbl[idx]? = some a) (hk : a.kind = .store)
+    (hn : a.nargs = .one) (hconv : a.conv = .base .str) (hch : a.choices = some names)
+    (hmem : name ∈ names) :
+    SegOk fenv tbl ⟨⟨idx, opt, [name]⟩, [.str name], eq⟩ := by
+  refine ⟨a, ha, Or.inl hk, by rw [hn]; rfl, fun cs _ => ?_⟩
+  rw [segCounters_stateless tbl cs _ a ha (by rw [hconv]; simp)]
+  simp [ConvAll, getValuesList, getValue, hconv, Conv.apply, BConv.apply, hch, hmem]
+
+/-- **the `parse_tuple` closure** (heterogeneous `Tuple[T1, …, Tn]`): from any aligned counter state
+    the `n` canonical tokens convert with the `n` item types in order -/
+theorem segOk_tuple (fenv : FEnv) (tbl : List Act) (idx : Nat) (opt : Str) (a : Act)
+    (items : List (Scalar × BTy)) (eq : Bool) (ha : tbl[idx]? = some a) (hk : a.kind = .store)
+    (hn : a.nargs = .num items.length)
+    (hconv : a.conv = .tupleCounter (items.map (fun p => bconvOf p.2))) (hch : a.choices = none)
+    (hty : ∀ p ∈ items, HasBTy fenv p.1 p.2) :
+    SegOk fenv tbl ⟨⟨idx, opt, items.map (fun p => tokenOf p.1)⟩, items.map (·.1), eq⟩ := by
+  refine ⟨a, ha, Or.inl hk, by rw [hn]; simp [arityOk], fun cs hal => ?_⟩
+  have hi : idx < cs.length := by
+    rw [hal.1]; exact (List.getElem?_eq_some_iff.mp ha).1
+  have hk0 := hal.2 idx a _ ha hconv (by rw [hn]; simp)
+  simp only [List.length_map] at hk0
+  have hseg : segCounters tbl cs ⟨idx, opt, items.map (fun p => tokenOf p.1)⟩ = bumpN cs idx items.length := by
+    unfold segCounters
+    simp only [ha, hconv, List.length_map]
+  rw [hseg]
+  exact (c02_tuple_occurrence fenv a idx items hconv hch cs hi hk0 hty).1
+
+/-- `a` is the action `fieldAct` builds from `ao` (as far as parsing goes), and `opt` is one of its
+    positive option strings -/
+structure ActOf (ao : ArgOpts) (a : Act) (opt : Str) : Prop where
+  nargs : a.nargs = ao.nargs
+  conv : a.conv = ao.conv
+  choices : a.choices = ao.choices
+  kind : (ao.isBool = false ∧ a.kind = .store) ∨
+    (ao.isBool = true ∧ ∃ negs, a.kind = .boolOpt negs ∧ negs.contains opt = false)
+
+theorem segVal_many (n : NArgs) (l : List Scalar) (h : n = .star ∨ ∃ m, n = .num m) :
+    segVal n l = .list l := by
+  unfold segVal
+  rcases h with rfl | ⟨m, rfl⟩ <;> split <;> simp_all
+
+theorem storedVal_store (a : Act) (opt : Str) (l : List Scalar) (h : a.kind = .store) :
+    storedVal a opt l = segVal a.nargs l := by
+  simp [storedVal, h]
+
+/-- **plain `T` field** (int, float, str, Path, Any): `nargs=None`, `type=T`; `postprocess` keeps it -/
+theorem fld_plain (fenv : FEnv) (tbl : List Act) (f : FieldSpec) (b : BTy)
+    (hty : f.ty = ⟨.sc (.base b), false⟩) (hb1 : ∀ c ms, b ≠ .enum c ms) (hb2 : b ≠ .bool)
+    (hd : f.default ≠ .value (.sc .none)) (ao : ArgOpts) (hao : argOptions f = some ao)
+    (a : Act) (idx : Nat) (opt : Str) (eq : Bool) (ha : tbl[idx]? = some a) (hact : ActOf ao a opt)
+    (s : Scalar) (hs : HasBTy fenv s b) :
+    SegOk fenv tbl ⟨⟨idx, opt, [tokenOf s]⟩, [s], eq⟩ ∧
+      postprocess f (storedVal a opt [s]) = .ok (.sc s) := by
+  obtain ⟨name, ty, d, al⟩ := f
+  simp only at hty hd
+  subst hty
+  have hdn : (d = DefaultV.value (Val.sc Scalar.none)) = False := by simp [hd]
+  have hao' : ao = ⟨.one, .base (bconvOf b), none, decide (d = .missing), defaultVal d, false⟩ := by
+    cases b <;> simp_all [argOptions, bconvOf]
+  subst hao'
+  obtain ⟨hn, hc, hch, hk⟩ := hact
+  simp only [Bool.false_eq_true, false_and, or_false, true_and] at hk
+  refine ⟨segOk_base fenv tbl idx opt a b [s] eq ha (Or.inl hk) hc hch (by rw [hn]; rfl)
+    (by simpa using hs), ?_⟩
+  rw [storedVal_store a opt _ hk, hn]
+  cases b <;> simp_all [postprocess, segVal, HasBTy]
+  · obtain ⟨p, rfl, _⟩ := hs; rfl
+
+/-- **plain `Enum` field**: read as a string under `choices = member names`; `postprocess` maps the
+    name to the member -/
+theorem fld_enum (fenv : FEnv) (tbl : List Act) (f : FieldSpec) (cls : Str) (ms : List Str)
+    (hty : f.ty = ⟨.sc (.base (.enum cls ms)), false⟩)
+    (hd : f.default ≠ .value (.sc .none)) (ao : ArgOpts) (hao : argOptions f = some ao)
+    (a : Act) (idx : Nat) (opt : Str) (eq : Bool) (ha : tbl[idx]? = some a) (hact : ActOf ao a opt)
+    (m : Str) (hm : m ∈ ms) :
+    SegOk fenv tbl ⟨⟨idx, opt, [m]⟩, [.str m], eq⟩ ∧
+      postprocess f (storedVal a opt [.str m]) = .ok (.sc (.enum cls m)) := by
+  obtain ⟨name, ty, d, al⟩ := f
+  simp only at hty hd
+  subst hty
+  have hdn : (d = DefaultV.value (Val.sc Scalar.none)) = False := by simp [hd]
+  simp only [argOptions, hdn, decide_false, Bool.false_eq_true, Bool.or_self, ↓reduceIte,
+    Option.some.injEq] at hao
+  subst hao
+  obtain ⟨hn, hc, hch, hk⟩ := hact
+  simp only [Bool.false_eq_true, false_and, or_false, true_and] at hk
+  refine ⟨segOk_choice fenv tbl idx opt a ms m eq ha hk hn hc hch hm, ?_⟩
+  rw [storedVal_store a opt _ hk, hn]
+  simp [postprocess, segVal, hm]
+
+/-- **`bool` field** (the boolean action): `--flag True` / `--flag False` through a positive option
+    string stores the word's value -/
+theorem fld_bool (fenv : FEnv) (tbl : List Act) (f : FieldSpec)
+    (hty : f.ty = ⟨.sc (.base .bool), false⟩)
+    (hd : f.default ≠ .value (.sc .none)) (ao : ArgOpts) (hao : argOptions f = some ao)
+    (a : Act) (idx : Nat) (opt : Str) (eq : Bool) (ha : tbl[idx]? = some a) (hact : ActOf ao a opt)
+    (b : Bool) :
+    SegOk fenv tbl ⟨⟨idx, opt, [tokenOf (.bool b)]⟩, [.bool b], eq⟩ ∧
+      postprocess f (storedVal a opt [.bool b]) = .ok (.sc (.bool b)) := by
+  obtain ⟨name, ty, d, al⟩ := f
+  simp only at hty hd
+  subst hty
+  have hdn : (d = DefaultV.value (Val.sc Scalar.none)) = False := by simp [hd]
+  simp only [argOptions, hdn, decide_false, Bool.false_eq_true, Bool.or_self, ↓reduceIte,
+    Option.some.injEq] at hao
+  subst hao
+  obtain ⟨hn, hc, hch, hk⟩ := hact
+  simp only [Bool.true_eq_false, false_and, false_or, true_and] at hk
+  obtain ⟨negs, hk, hpos⟩ := hk
+  refine ⟨segOk_base fenv tbl idx opt a .bool [.bool b] eq ha
+    (Or.inr ⟨negs, hk, hn, hpos, Or.inr ⟨b, rfl⟩⟩) hc hch (by rw [hn]; simp [arityOk])
+    (by simp [HasBTy]), ?_⟩
+  simp [storedVal, hk, postprocess]
+
+/-- the value a Literal name denotes: the LAST value with that `str()` (`choice_dict`) -/
+def LastNamed (vals : List Scalar) (s : Scalar) : Prop :=
+  ∃ n, literalName s = some n ∧ vals.reverse.find? (fun v => literalName v = some n) = some s
+
+theorem mapM_literalName_mem (vals : List Scalar) (names : List Str)
+    (h : vals.mapM literalName = some names) (s : Scalar) (n : Str) (hs : s ∈ vals)
+    (hn : literalName s = some n) : n ∈ names := by
+  induction vals generalizing names with
+  | nil => simp at hs
+  | cons v rest ih =>
+    rw [List.mapM_cons] at h
+    cases hv : literalName v with
+    | none => simp [hv] at h
+    | some nv =>
+      cases hr : rest.mapM literalName with
+      | none => simp [hv, hr] at h
+      | some ns =>
+        simp only [hv, hr, Option.pure_def, Option.bind_eq_bind, Option.bind_some,
+          Option.some.injEq] at h
+        subst h
+        rcases List.mem_cons.mp hs with rfl | hmem
+        · rw [hv] at hn; cases hn; simp
+        · exact List.mem_cons_of_mem _ (ih ns hr hmem)
+
+/-- **`Literal[…]` field**: read as a string under `choices = [str(v)…]`; `postprocess` maps the
+    name back through `choice_dict` (last value with that name) -/
+theorem fld_literal (fenv : FEnv) (tbl : List Act) (f : FieldSpec) (vals : List Scalar)
+    (hty : f.ty = ⟨.literal vals, false⟩) (ao : ArgOpts) (hao : argOptions f = some ao)
+    (a : Act) (idx : Nat) (opt : Str) (eq : Bool) (ha : tbl[idx]? = some a) (hact : ActOf ao a opt)
+    (s : Scalar) (n : Str) (hn : literalName s = some n)
+    (hlast : vals.reverse.find? (fun v => literalName v = some n) = some s) :
+    SegOk fenv tbl ⟨⟨idx, opt, [n]⟩, [.str n], eq⟩ ∧
+      postprocess f (storedVal a opt [.str n]) = .ok (.sc s) := by
+  obtain ⟨name, ty, d, al⟩ := f
+  simp only at hty
+  subst hty
+  simp only [argOptions] at hao
+  cases hnames : vals.mapM literalName with
+  | none => simp [hnames] at hao
+  | some names =>
+    simp only [hnames, Option.map_some, Option.some.injEq] at hao
+    subst hao
+    obtain ⟨hna, hc, hch, hk⟩ := hact
+    simp only [Bool.false_eq_true, false_and, or_false, true_and] at hk
+    have hsmem : s ∈ vals := by
+      have := List.mem_of_find?_eq_some hlast
+      exact List.mem_reverse.mp this
+    refine ⟨segOk_choice fenv tbl idx opt a names n eq ha hk hna hc hch
+      (mapM_literalName_mem vals names hnames s n hsmem hn), ?_⟩
+    rw [storedVal_store a opt _ hk, hna]
+    simp [postprocess, segVal, hlast]
+
+/-- **`Optional[T]` scalar field**: `nargs='?'`; one token gives the value, the bare option `None` -/
+theorem fld_optional (fenv : FEnv) (tbl : List Act) (f : FieldSpec) (b : BTy)
+    (hty : f.ty = ⟨.sc (.base b), true⟩) (ao : ArgOpts) (hao : argOptions f = some ao)
+    (a : Act) (idx : Nat) (opt : Str) (eq : Bool) (ha : tbl[idx]? = some a) (hact : ActOf ao a opt) :
+    (∀ s, HasBTy fenv s b → SegOk fenv tbl ⟨⟨idx, opt, [tokenOf s]⟩, [s], eq⟩ ∧
+      postprocess f (storedVal a opt [s]) = .ok (.sc s)) ∧
+    (SegOk fenv tbl ⟨⟨idx, opt, []⟩, [], eq⟩ ∧ postprocess f (storedVal a opt []) = .ok (.sc .none)) := by
+  obtain ⟨name, ty, d, al⟩ := f
+  simp only at hty
+  subst hty
+  simp only [argOptions, Bool.true_or, ↓reduceIte, convOfItem, Option.some.injEq] at hao
+  subst hao
+  obtain ⟨hn, hc, hch, hk⟩ := hact
+  simp only [Bool.false_eq_true, false_and, or_false, true_and] at hk
+  constructor
+  · intro s hs
+    refine ⟨segOk_base fenv tbl idx opt a b [s] eq ha (Or.inl hk) hc hch (by rw [hn]; simp [arityOk])
+      (by simpa using hs), ?_⟩
+    rw [storedVal_store a opt _ hk, hn]
+    simp [postprocess, segVal]
+  · refine ⟨segOk_base fenv tbl idx opt a b [] eq ha (Or.inl hk) hc hch (by rw [hn]; simp [arityOk])
+      (by simp), ?_⟩
+    rw [storedVal_store a opt _ hk, hn]
+    simp [postprocess, segVal]
+
+/-- **`List[T]` / `Optional[List[T]]` field**: `nargs='*'`, T's converter; any length, the empty
+    list included -/
+theorem fld_list (fenv : FEnv) (tbl : List Act) (f : FieldSpec) (b : BTy) (o : Bool)
+    (hty : f.ty = ⟨.list (.base b), o⟩) (hb : b ≠ .any)
+    (ao : ArgOpts) (hao : argOptions f = some ao)
+    (a : Act) (idx : Nat) (opt : Str) (eq : Bool) (ha : tbl[idx]? = some a) (hact : ActOf ao a opt)
+    (l : List Scalar) (hl : ∀ s ∈ l, HasBTy fenv s b) :
+    SegOk fenv tbl ⟨⟨idx, opt, l.map tokenOf⟩, l, eq⟩ ∧
+      postprocess f (storedVal a opt l) = .ok (.list l) := by
+  obtain ⟨name, ty, d, al⟩ := f
+  simp only at hty
+  subst hty
+  have hcc : containerConv (.base b) = some (.base (bconvOf b)) := by
+    cases b <;> simp_all [containerConv, bconvOf]
+  have hfacts : ao.nargs = .star ∧ ao.conv = .base (bconvOf b) ∧ ao.choices = none ∧ ao.isBool = false := by
+    simp only [argOptions, hcc, Option.map_some] at hao
+    cases o <;> (try split at hao) <;> simp only [Option.some.injEq] at hao <;> subst hao <;> simp
+  obtain ⟨h1, h2, h3, h4⟩ := hfacts
+  obtain ⟨hn, hc, hch, hk⟩ := hact
+  simp only [h4, Bool.false_eq_true, false_and, or_false, true_and] at hk
+  rw [h1] at hn; rw [h2] at hc; rw [h3] at hch
+  refine ⟨segOk_base fenv tbl idx opt a b l eq ha (Or.inl hk) hc hch (by rw [hn]; trivial) hl, ?_⟩
+  rw [storedVal_store a opt _ hk, hn, segVal_many _ _ (Or.inl rfl)]
+  cases o <;> simp [postprocess, tupleToList]
+
+/-- **`Tuple[T, ...]` / `Optional[Tuple[T, ...]]` field**: `nargs='*'`, T's converter; `postprocess`
+    turns argparse's list into a tuple (the empty one included) -/
+theorem fld_vtuple (fenv : FEnv) (tbl : List Act) (f : FieldSpec) (b : BTy) (o : Bool)
+    (hty : f.ty = ⟨.vtuple (.base b), o⟩)
+    (ao : ArgOpts) (hao : argOptions f = some ao)
+    (a : Act) (idx : Nat) (opt : Str) (eq : Bool) (ha : tbl[idx]? = some a) (hact : ActOf ao a opt)
+    (l : List Scalar) (hl : ∀ s ∈ l, HasBTy fenv s b) :
+    SegOk fenv tbl ⟨⟨idx, opt, l.map tokenOf⟩, l, eq⟩ ∧
+      postprocess f (storedVal a opt l) = .ok (.tuple l) := by
+  obtain ⟨name, ty, d, al⟩ := f
+  simp only at hty
+  subst hty
+  have hfacts : ao.nargs = .star ∧ ao.conv = .base (bconvOf b) ∧ ao.choices = none ∧ ao.isBool = false := by
+    simp only [argOptions, convOfItem] at hao
+    cases o <;> (try split at hao) <;> simp only [Option.some.injEq] at hao <;> subst hao <;> simp
+  obtain ⟨h1, h2, h3, h4⟩ := hfacts
+  obtain ⟨hn, hc, hch, hk⟩ := hact
+  simp only [h4, Bool.false_eq_true, false_and, or_false, true_and] at hk
+  rw [h1] at hn; rw [h2] at hc; rw [h3] at hch
+  refine ⟨segOk_base fenv tbl idx opt a b l eq ha (Or.inl hk) hc hch (by rw [hn]; trivial) hl, ?_⟩
+  rw [storedVal_store a opt _ hk, hn, segVal_many _ _ (Or.inl rfl)]
+  cases o <;> simp [postprocess, listToTuple]
+
+theorem allEq_base_true (b : BTy) (bs : List BTy) (h : allEq ((b :: bs).map ITy.base) = true) :
+    ∀ x ∈ b :: bs, x = b := by
+  intro x hx
+  rcases List.mem_cons.mp hx with rfl | hm
+  · rfl
+  · simp only [List.map_cons, allEq, List.all_map, List.all_eq_true, Function.comp_apply,
+      decide_eq_true_eq, ITy.base.injEq] at h
+    exact h x hm
+
+/-- **`Tuple[T1, …, Tn]` / `Optional[Tuple[…]]` field** (n ≥ 1; equal item types: T's converter,
+    different ones: the `parse_tuple` closure): `nargs = n`; `postprocess` makes the tuple -/
+theorem fld_tuple (fenv : FEnv) (tbl : List Act) (f : FieldSpec) (bs : List BTy) (o : Bool)
+    (hty : f.ty = ⟨.tuple (bs.map ITy.base), o⟩) (hne : bs ≠ [])
+    (ao : ArgOpts) (hao : argOptions f = some ao)
+    (a : Act) (idx : Nat) (opt : Str) (eq : Bool) (ha : tbl[idx]? = some a) (hact : ActOf ao a opt)
+    (l : List Scalar) (hlen : l.length = bs.length) (hl : ∀ p ∈ l.zip bs, HasBTy fenv p.1 p.2) :
+    SegOk fenv tbl ⟨⟨idx, opt, l.map tokenOf⟩, l, eq⟩ ∧
+      postprocess f (storedVal a opt l) = .ok (.tuple l) := by
+  obtain ⟨name, ty, d, al⟩ := f
+  simp only at hty
+  subst hty
+  have hpost : ∀ (k : Act), k.kind = .store → k.nargs = .num bs.length →
+      postprocess { name := name, ty := ⟨.tuple (bs.map ITy.base), o⟩, default := d, aliases := al }
+        (storedVal k opt l) = .ok (.tuple l) := by
+    intro k hk hn
+    rw [storedVal_store k opt _ hk, hn, segVal_many _ _ (Or.inr ⟨_, rfl⟩)]
+    cases o <;> simp [postprocess, listToTuple]
+  by_cases hall : allEq (bs.map ITy.base) = true
+  · -- homogeneous: stateless converter of the (single) item type
+    obtain ⟨b, rest, rfl⟩ := List.exists_cons_of_ne_nil hne
+    have hsame := allEq_base_true b rest hall
+    have htc : tupleConv ((b :: rest).map ITy.base) = some (.base (bconvOf b)) := by
+      simp only [List.map_cons, tupleConv] at hall ⊢
+      simp [hall, convOfItem]
+    have hfacts : ao.nargs = .num (b :: rest).length ∧ ao.conv = .base (bconvOf b) ∧ ao.choices = none ∧
+        ao.isBool = false := by
+      simp only [argOptions, htc, Option.map_some, List.length_map] at hao
+      cases o <;> (try split at hao) <;> simp only [Option.some.injEq] at hao <;> subst hao <;> simp
+    obtain ⟨h1, h2, h3, h4⟩ := hfacts
+    obtain ⟨hn, hc, hch, hk⟩ := hact
+    simp only [h4, Bool.false_eq_true, false_and, or_false, true_and] at hk
+    rw [h1] at hn; rw [h2] at hc; rw [h3] at hch
+    refine ⟨segOk_base fenv tbl idx opt a b l eq ha (Or.inl hk) hc hch (by rw [hn]; exact hlen) ?_,
+      hpost a hk hn⟩
+    intro s hs
+    obtain ⟨i, hi, rfl⟩ := List.mem_iff_getElem.mp hs
+    have hi' : i < (b :: rest).length := by rw [← hlen]; exact hi
+    have hi'' : i < rest.length + 1 := by simpa using hi'
+    have hmem : (l[i], (b :: rest)[i]) ∈ l.zip (b :: rest) := by
+      rw [List.mem_iff_getElem]
+      exact ⟨i, by simp [hi, hi''], by simp⟩
+    have := hl _ hmem
+    rw [hsame _ (List.getElem_mem hi')] at this
+    exact this
+  · -- heterogeneous: the closure
+    have hall' : allEq (bs.map ITy.base) = false := by simpa using hall
+    have htc := tupleConv_hetero bs hall'
+    have hfacts : ao.nargs = .num bs.length ∧ ao.conv = .tupleCounter (bs.map bconvOf) ∧
+        ao.choices = none ∧ ao.isBool = false := by
+      simp only [argOptions, htc, Option.map_some, List.length_map] at hao
+      cases o <;> (try split at hao) <;> simp only [Option.some.injEq] at hao <;> subst hao <;> simp
+    obtain ⟨h1, h2, h3, h4⟩ := hfacts
+    obtain ⟨hn, hc, hch, hk⟩ := hact
+    simp only [h4, Bool.false_eq_true, false_and, or_false, true_and] at hk
+    rw [h1] at hn; rw [h2] at hc; rw [h3] at hch
+    have hz1 : (l.zip bs).map (·.1) = l := List.map_fst_zip (by omega)
+    have hz2 : (l.zip bs).map (·.2) = bs := List.map_snd_zip (by omega)
+    have hzl : (l.zip bs).length = bs.length := by simp [List.length_zip, hlen]
+    have hz3 : (l.zip bs).map (fun p => bconvOf p.2) = bs.map bconvOf := by
+      have := congrArg (List.map bconvOf) hz2
+      simpa [List.map_map, Function.comp_def] using this
+    have hz4 : (l.zip bs).map (fun p => tokenOf p.1) = l.map tokenOf := by
+      have := congrArg (List.map tokenOf) hz1
+      simpa [List.map_map, Function.comp_def] using this
+    have := segOk_tuple fenv tbl idx opt a (l.zip bs) eq ha hk (by rw [hn, hzl])
+      (by rw [hc, hz3]) hch hl
+    rw [hz4, hz1] at this
+    exact ⟨this, hpost a hk hn⟩
+
+/-! #### the dispatcher -/
+
+/-- the scalars a written value consists of (`None` is written as the bare option) -/
+def valItems : Val → List Scalar
+  | .sc .none => []
+  | .sc s => [s]
+  | .list l => l
+  | .tuple l => l
+
+/-- canonical token of one item of a field of type `ty`: `str(v)`; enum members by name -/
+def itemTok (ty : FTy) (s : Scalar) : Str :=
+  match ty.optional, ty.inner with
+  | false, .literal _ => (literalName s).getD []
+  | _, _ => tokenOf s
+
+/-- what argparse's converter yields for that item (Enum / Literal fields are read as strings
+    under `choices`; `postprocess` maps the name back) -/
+def rawItem (ty : FTy) (s : Scalar) : Scalar :=
+  match ty.optional, ty.inner with
+  | false, .sc (.base (.enum _ _)) => .str (tokenOf s)
+  | false, .literal _ => .str ((literalName s).getD [])
+  | _, _ => s
+
+/-- **the canonical token form** of value `v` for a field of type `ty` -/
+def fieldToks (ty : FTy) (v : Val) : List Str := (valItems v).map (itemTok ty)
+def fieldRaw (ty : FTy) (v : Val) : List Scalar := (valItems v).map (rawItem ty)
+
+/-- `v` is an expressible value of the (non-Optional) annotation -/
+def ValOkN (fenv : FEnv) : NTy → Val → Prop
+  | .sc (.base b), .sc s => HasBTy fenv s b
+  | .literal vals, .sc s => LastNamed vals s
+  | .list (.base b), .list l => b ≠ .any ∧ ∀ s ∈ l, HasBTy fenv s b
+  | .vtuple (.base b), .tuple l => ∀ s ∈ l, HasBTy fenv s b
+  | .tuple items, .tuple l => ∃ bs, items = bs.map ITy.base ∧ l.length = bs.length ∧ bs ≠ [] ∧
+      ∀ p ∈ l.zip bs, HasBTy fenv p.1 p.2
+  | _, _ => False
+
+/-- **`v` is a value of the supported annotation `ty` that has a canonical token form**: a typed
+    scalar / list / tuple (floats and paths: with a token in the environment), a Literal value that
+    its name denotes, `None` for an `Optional` scalar (written as the bare option).
+    Not supported (see section 9): `Optional[Literal]`, `List[Literal]`, `Union`s. -/
+def ValOk (fenv : FEnv) (ty : FTy) (v : Val) : Prop :=
+  match ty.optional with
+  | false => ValOkN fenv ty.inner v
+  | true => (∃ b, ty.inner = .sc (.base b) ∧ v = .sc .none) ∨
+      ((∀ vals, ty.inner ≠ .literal vals) ∧ ValOkN fenv ty.inner v)
+
+theorem hasBTy_ne_none (fenv : FEnv) (b : BTy) (s : Scalar) (h : HasBTy fenv s b) : s ≠ .none := by
+  intro hh; subst hh
+  cases b <;> simp [HasBTy] at h
+
+/-- **every supported annotation**: the canonical tokens of an expressible value are accepted by
+    the field's action (from any aligned closure state) and `postprocess` returns exactly the value -/
+theorem field_segOk (fenv : FEnv) (tbl : List Act) (f : FieldSpec) (ao : ArgOpts)
+    (hao : argOptions f = some ao) (a : Act) (idx : Nat) (opt : Str) (eq : Bool)
+    (ha : tbl[idx]? = some a) (hact : ActOf ao a opt)
+    (hd : f.ty.optional = true ∨ f.default ≠ .value (.sc .none))
+    (v : Val) (hv : ValOk fenv f.ty v) :
+    SegOk fenv tbl ⟨⟨idx, opt, fieldToks f.ty v⟩, fieldRaw f.ty v, eq⟩ ∧
+      postprocess f (storedVal a opt (fieldRaw f.ty v)) = .ok v := by
+  rcases hft : f.ty with ⟨inner, o⟩
+  cases o with
+  | false =>
+    have hd' : f.default ≠ .value (.sc .none) := by
+      rcases hd with hd | hd
+      · rw [hft] at hd; cases hd
+      · exact hd
+    simp only [ValOk, hft] at hv
+    cases inner with
+    | sc t =>
+      cases t with
+      | union alts => cases v <;> simp [ValOkN] at hv
+      | base b =>
+        cases v with
+        | list l => simp [ValOkN] at hv
+        | tuple l => simp [ValOkN] at hv
+        | sc s =>
+          simp only [ValOkN] at hv
+          have hsn := hasBTy_ne_none fenv b s hv
+          have hitems : valItems (.sc s) = [s] := by cases s <;> simp_all [valItems]
+          by_cases hbool : b = .bool
+          · subst hbool
+            obtain ⟨bb, rfl⟩ := hv
+            simpa [fieldToks, fieldRaw, valItems, itemTok, rawItem] using
+              fld_bool fenv tbl f hft hd' ao hao a idx opt eq ha hact bb
+          · cases b with
+            | enum cls ms =>
+              obtain ⟨m, rfl, hm⟩ := hv
+              simpa [fieldToks, fieldRaw, valItems, itemTok, rawItem, tokenOf] using
+                fld_enum fenv tbl f cls ms hft hd' ao hao a idx opt eq ha hact m hm
+            | bool => exact absurd rfl hbool
+            | int =>
+              simpa [fieldToks, fieldRaw, hitems, itemTok, rawItem] using
+                fld_plain fenv tbl f .int hft (by simp) (by simp) hd' ao hao a idx opt eq ha hact s hv
+            | float =>
+              simpa [fieldToks, fieldRaw, hitems, itemTok, rawItem] using
+                fld_plain fenv tbl f .float hft (by simp) (by simp) hd' ao hao a idx opt eq ha hact s hv
+            | str =>
+              simpa [fieldToks, fieldRaw, hitems, itemTok, rawItem] using
+                fld_plain fenv tbl f .str hft (by simp) (by simp) hd' ao hao a idx opt eq ha hact s hv
+            | path =>
+              simpa [fieldToks, fieldRaw, hitems, itemTok, rawItem] using
+                fld_plain fenv tbl f .path hft (by simp) (by simp) hd' ao hao a idx opt eq ha hact s hv
+            | any =>
+              simpa [fieldToks, fieldRaw, hitems, itemTok, rawItem] using
+                fld_plain fenv tbl f .any hft (by simp) (by simp) hd' ao hao a idx opt eq ha hact s hv
+    | literal vals =>
+      cases v with
+      | list l => simp [ValOkN] at hv
+      | tuple l => simp [ValOkN] at hv
+      | sc s =>
+        simp only [ValOkN] at hv
+        obtain ⟨n, hn, hlast⟩ := hv
+        have hsn : s ≠ .none := by intro hh; subst hh; simp [literalName] at hn
+        have hitems : valItems (.sc s) = [s] := by cases s <;> simp_all [valItems]
+        simpa [fieldToks, fieldRaw, hitems, itemTok, rawItem, hn] using
+          fld_literal fenv tbl f vals hft ao hao a idx opt eq ha hact s n hn hlast
+    | list item =>
+      cases item with
+      | union alts => cases v <;> simp [ValOkN] at hv
+      | base b =>
+        cases v with
+        | sc s => simp [ValOkN] at hv
+        | tuple l => simp [ValOkN] at hv
+        | list l =>
+          simp only [ValOkN] at hv
+          have hmapt : l.map (itemTok ⟨.list (.base b), false⟩) = l.map tokenOf := by
+            apply List.map_congr_left; intro s _; rfl
+          have hmapr : l.map (rawItem ⟨.list (.base b), false⟩) = l := by
+            conv => rhs; rw [← List.map_id l]
+            apply List.map_congr_left; intro s _; rfl
+          simpa [fieldToks, fieldRaw, valItems, hmapt, hmapr] using
+            fld_list fenv tbl f b false hft hv.1 ao hao a idx opt eq ha hact l hv.2
+    | vtuple item =>
+      cases item with
+      | union alts => cases v <;> simp [ValOkN] at hv
+      | base b =>
+        cases v with
+        | sc s => simp [ValOkN] at hv
+        | list l => simp [ValOkN] at hv
+        | tuple l =>
+          simp only [ValOkN] at hv
+          have hmapt : l.map (itemTok ⟨.vtuple (.base b), false⟩) = l.map tokenOf := by
+            apply List.map_congr_left; intro s _; rfl
+          have hmapr : l.map (rawItem ⟨.vtuple (.base b), false⟩) = l := by
+            conv => rhs; rw [← List.map_id l]
+            apply List.map_congr_left; intro s _; rfl
+          simpa [fieldToks, fieldRaw, valItems, hmapt, hmapr] using
+            fld_vtuple fenv tbl f b false hft ao hao a idx opt eq ha hact l hv
+    | tuple items =>
+      cases v with
+      | sc s => simp [ValOkN] at hv
+      | list l => simp [ValOkN] at hv
+      | tuple l =>
+        simp only [ValOkN] at hv
+        obtain ⟨bs, rfl, hlen, hne, hl⟩ := hv
+        have hmapt : l.map (itemTok ⟨.tuple (bs.map ITy.base), false⟩) = l.map tokenOf := by
+          apply List.map_congr_left; intro s _; rfl
+        have hmapr : l.map (rawItem ⟨.tuple (bs.map ITy.base), false⟩) = l := by
+          conv => rhs; rw [← List.map_id l]
+          apply List.map_congr_left; intro s _; rfl
+        simpa [fieldToks, fieldRaw, valItems, hmapt, hmapr] using
+          fld_tuple fenv tbl f bs false hft hne ao hao a idx opt eq ha hact l hlen hl
+  | true =>
+    simp only [ValOk, hft] at hv
+    rcases hv with ⟨b, hb, rfl⟩ | ⟨hnl, hv⟩
+    · subst hb
+      simpa [fieldToks, fieldRaw, valItems] using
+        (fld_optional fenv tbl f b hft ao hao a idx opt eq ha hact).2
+    · cases inner with
+      | sc t =>
+        cases t with
+        | union alts => cases v <;> simp [ValOkN] at hv
+        | base b =>
+          cases v with
+          | list l => simp [ValOkN] at hv
+          | tuple l => simp [ValOkN] at hv
+          | sc s =>
+            simp only [ValOkN] at hv
+            have hsn := hasBTy_ne_none fenv b s hv
+            have hitems : valItems (.sc s) = [s] := by cases s <;> simp_all [valItems]
+            simpa [fieldToks, fieldRaw, hitems, itemTok, rawItem] using
+              (fld_optional fenv tbl f b hft ao hao a idx opt eq ha hact).1 s hv
+      | literal vals => exact absurd rfl (hnl vals)
+      | list item =>
+        cases item with
+        | union alts => cases v <;> simp [ValOkN] at hv
+        | base b =>
+          cases v with
+          | sc s => simp [ValOkN] at hv
+          | tuple l => simp [ValOkN] at hv
+          | list l =>
+            simp only [ValOkN] at hv
+            have hmapt : l.map (itemTok ⟨.list (.base b), true⟩) = l.map tokenOf := by
+              apply List.map_congr_left; intro s _; rfl
+            have hmapr : l.map (rawItem ⟨.list (.base b), true⟩) = l := by
+              conv => rhs; rw [← List.map_id l]
+              apply List.map_congr_left; intro s _; rfl
+            simpa [fieldToks, fieldRaw, valItems, hmapt, hmapr] using
+              fld_list fenv tbl f b true hft hv.1 ao hao a idx opt eq ha hact l hv.2
+      | vtuple item =>
+        cases item with
+        | union alts => cases v <;> simp [ValOkN] at hv
+        | base b =>
+          cases v with
+          | sc s => simp [ValOkN] at hv
+          | list l => simp [ValOkN] at hv
+          | tuple l =>
+            simp only [ValOkN] at hv
+            have hmapt : l.map (itemTok ⟨.vtuple (.base b), true⟩) = l.map tokenOf := by
+              apply List.map_congr_left; intro s _; rfl
+            have hmapr : l.map (rawItem ⟨.vtuple (.base b), true⟩) = l := by
+              conv => rhs; rw [← List.map_id l]
+              apply List.map_congr_left; intro s _; rfl
+            simpa [fieldToks, fieldRaw, valItems, hmapt, hmapr] using
+              fld_vtuple fenv tbl f b true hft ao hao a idx opt eq ha hact l hv
+      | tuple items =>
+        cases v with
+        | sc s => simp [ValOkN] at hv
+        | list l => simp [ValOkN] at hv
+        | tuple l =>
+          simp only [ValOkN] at hv
+          obtain ⟨bs, rfl, hlen, hne, hl⟩ := hv
+          have hmapt : l.map (itemTok ⟨.tuple (bs.map ITy.base), true⟩) = l.map tokenOf := by
+            apply List.map_congr_left; intro s _; rfl
+          have hmapr : l.map (rawItem ⟨.tuple (bs.map ITy.base), true⟩) = l := by
+            conv => rhs; rw [← List.map_id l]
+            apply List.map_congr_left; intro s _; rfl
+          simpa [fieldToks, fieldRaw, valItems, hmapt, hmapr] using
+            fld_tuple fenv tbl f bs true hft hne ao hao a idx opt eq ha hact l hlen hl
+
+
+/-! ### 7. defaults: what an unmentioned field holds -/
+
+/-- the annotations of the property's list that the code supports (item types are base types; a
+    Literal only un-wrapped: see section 9) -/
+def SupTy (ty : FTy) : Prop :=
+  match ty.optional, ty.inner with
+  | _, .sc (.base _) => True
+  | false, .literal _ => True
+  | _, .list (.base _) => True
+  | _, .vtuple (.base _) => True
+  | _, .tuple items => ∃ bs, items = bs.map ITy.base ∧ bs ≠ []
+  | _, _ => False
+
+/-- **the default is one the field can keep**: `None` only on an `Optional` annotation; a string
+    only where the type reads strings back unchanged (`str`, `Any`, a Literal name denoting itself)
+    — argparse runs string defaults through `type=`; an Enum member of the field's own Enum; a list
+    (tuple) default not on a tuple (list) annotation — `postprocess` converts those -/
+def DefaultOk (f : FieldSpec) : Prop :=
+  match f.default with
+  | .missing => True
+  | .value (.sc .none) => f.ty.optional = true
+  | .value (.sc (.str x)) => (match f.ty.inner with
+      | .sc (.base .str) => True
+      | .sc (.base .any) => True
+      | .literal vals => vals.reverse.find? (fun v => literalName v = some x) = some (.str x)
+      | _ => False)
+  | .value (.sc (.enum c n)) => (match f.ty.optional, f.ty.inner with
+      | false, .sc (.base (.enum cls ms)) => c = cls ∧ n ∈ ms
+      | _, _ => True)
+  | .value (.sc _) => True
+  | .value (.list _) => (match f.ty.inner with
+      | .tuple _ => False
+      | .vtuple _ => False
+      | _ => True)
+  | .value (.tuple _) => (match f.ty.inner with
+      | .list _ => False
+      | _ => True)
+
+/-- the `default=` handed to argparse: the field default, an Enum member by its name -/
+def argDefault (f : FieldSpec) : Val :=
+  match f.ty.optional, f.ty.inner, defaultVal f.default with
+  | false, .sc (.base (.enum _ _)), .sc (.enum _ n) => .sc (.str n)
+  | _, _, d => d
+
+set_option hygiene false in
+/-- (local) finish one leaf of the case analysis of `argOptions f = some ao` -/
+macro "ao_leaf" : tactic => `(tactic| (
+  first
+  | (obtain ⟨c, hc, rfl⟩ := hao)
+  | (subst hao)
+  | (cases hao)))
+
+theorem ao_default (f : FieldSpec) (ao : ArgOpts) (hao : argOptions f = some ao) :
+    ao.default = argDefault f := by
+  obtain ⟨name, ⟨inner, o⟩, d, al⟩ := f
+  by_cases hdn : d = DefaultV.value (Val.sc Scalar.none)
+  · subst hdn
+    cases o <;> cases inner <;> simp [argOptions] at hao <;> ao_leaf <;>
+      simp [argDefault, defaultVal]
+  · cases o
+    · cases inner with
+      | sc t =>
+        cases t with
+        | union alts => simp [argOptions, hdn] at hao; subst hao; simp [argDefault]
+        | base b =>
+          cases b <;> simp [argOptions, hdn, bconvOf] at hao <;> subst hao <;> simp [argDefault]
+          split <;> simp_all
+      | literal vals => simp [argOptions] at hao; ao_leaf; simp [argDefault]
+      | list item => simp [argOptions, hdn] at hao; ao_leaf; simp [argDefault]
+      | tuple items => simp [argOptions, hdn] at hao; ao_leaf; simp [argDefault]
+      | vtuple item => simp [argOptions, hdn] at hao; ao_leaf; simp [argDefault]
+    · cases inner <;> simp [argOptions] at hao <;> ao_leaf <;> simp [argDefault]
+
+/-- `required=True` only for a field without default on a non-Optional annotation -/
+theorem ao_required (f : FieldSpec) (ao : ArgOpts) (hao : argOptions f = some ao)
+    (h : ao.required = true) : f.default = .missing ∧ f.ty.optional = false := by
+  obtain ⟨name, ⟨inner, o⟩, d, al⟩ := f
+  by_cases hdn : d = DefaultV.value (Val.sc Scalar.none)
+  · subst hdn
+    cases o <;> cases inner <;> simp [argOptions] at hao <;> ao_leaf <;> simp at h
+  · cases o
+    · cases inner with
+      | sc t =>
+        cases t with
+        | union alts => simp [argOptions, hdn] at hao; subst hao; simpa using h
+        | base b => cases b <;> simp [argOptions, hdn, bconvOf] at hao <;> subst hao <;> simpa using h
+      | literal vals => simp [argOptions] at hao; ao_leaf; simp at h; simp [h.1]
+      | list item => simp [argOptions, hdn] at hao; ao_leaf; simpa using h
+      | tuple items => simp [argOptions, hdn] at hao; ao_leaf; simpa using h
+      | vtuple item => simp [argOptions, hdn] at hao; ao_leaf; simpa using h
+    · cases inner <;> simp [argOptions] at hao <;> ao_leaf <;> simp at h
+
+/-- **`postprocess` gives an unmentioned field its default back** (Enum: name → member; everything
+    else unchanged) -/
+theorem post_default (f : FieldSpec) (hdef : DefaultOk f) :
+    postprocess f (argDefault f) = .ok (defaultVal f.default) := by
+  obtain ⟨name, ⟨inner, o⟩, d, al⟩ := f
+  cases o <;> rcases inner with (b | alts) | vals | item | items | item <;> (try cases b) <;>
+    rcases d with _ | (s | l | l) <;> (try cases s) <;>
+    simp_all [postprocess, argDefault, defaultVal, DefaultOk, listToTuple, tupleToList]
+
+/-- **`finish` leaves a kept default alone**: where the `default=` handed to argparse is a string,
+    the field's `type=` reads it back unchanged (so the namespace entry stays what it was) -/
+theorem quiet_default (fenv : FEnv) (f : FieldSpec) (ao : ArgOpts) (hao : argOptions f = some ao)
+    (hsup : SupTy f.ty) (hdef : DefaultOk f) :
+    ∀ s, ao.default = .sc (.str s) → ∀ k, ao.conv.apply fenv k s = .ok (.str s) := by
+  intro s hs k
+  rw [ao_default f ao hao] at hs
+  obtain ⟨name, ⟨inner, o⟩, d, al⟩ := f
+  cases o <;> rcases inner with (b | alts) | vals | item | items | item <;> (try cases b) <;>
+    rcases d with _ | (s0 | l | l) <;> (try cases s0) <;>
+    simp_all [argDefault, defaultVal, DefaultOk, SupTy] <;>
+    (simp [argOptions] at hao) <;> ao_leaf <;> simp [Conv.apply, BConv.apply, bconvOf, convOfItem]
+
+/-! ### 8. the whole flat pipeline: `parseFlat` on the canonical command line
+
+  `parse(Cls, args=…)` for one flat dataclass: `tableOf` (one action per field after the built-in
+  help), `runStrict`, then `postprocess` per field — composed, for any number of fields and
   segments. -/
 
-/-- the table of a flat dataclass: action `i+1` is the action of field `i` -/
-theorem tableOf_get (cfg : Cfg) (dest : Str) (fs : List FieldSpec) (tbl : List Act)
-    (h : tableOf cfg dest fs = some tbl) (i : Nat) (hi : i < fs.length) :
-    ∃ a, fieldAct cfg dest fs[i] = some a ∧ tbl[i + 1]? = some a := by
+theorem mapM_some_get {α β : Type} (g : α → Option β) : ∀ (l : List α) (as : List β),
+    l.mapM g = some as →
+    as.length = l.length ∧ ∀ j (hj : j < l.length), ∃ a, g l[j] = some a ∧ as[j]? = some a := by
+  intro l
+  induction l with
+  | nil =>
+    intro as has
+    simp only [List.mapM_nil, Option.pure_def, Option.some.injEq] at has
+    subst has
+    exact ⟨rfl, fun j hj => by simp at hj⟩
+  | cons f rest ih =>
+    intro as has
+    rw [List.mapM_cons] at has
+    cases hf : g f with
+    | none => simp [hf] at has
+    | some a0 =>
+      cases hr : rest.mapM g with
+      | none => simp [hf, hr] at has
+      | some as' =>
+        simp only [hf, hr, Option.pure_def, Option.bind_eq_bind, Option.bind_some,
+          Option.some.injEq] at has
+        subst has
+        obtain ⟨hl, hget⟩ := ih as' hr
+        refine ⟨by simp [hl], ?_⟩
+        intro j hj
+        cases j with
+        | zero => exact ⟨a0, by simpa using hf, rfl⟩
+        | succ j' =>
+          obtain ⟨a, ha1, ha2⟩ := hget j' (by simpa using hj)
+          exact ⟨a, by simpa using ha1, by simpa using ha2⟩
+
+/-- the table of a flat dataclass: the built-in help, then action `i+1` for field `i` -/
+theorem tableOf_facts (cfg : Cfg) (dest : Str) (fs : List FieldSpec) (tbl : List Act)
+    (h : tableOf cfg dest fs = some tbl) :
+    tbl.length = fs.length + 1 ∧ tbl[0]? = some helpAct ∧
+      ∀ i (hi : i < fs.length), ∃ a, fieldAct cfg dest fs[i] = some a ∧ tbl[i + 1]? = some a := by
   unfold tableOf at h
   cases hm : fs.mapM (fieldAct cfg dest) with
   | none => simp [hm] at h
   | some acts =>
     simp only [hm, Option.map_some, Option.some.injEq] at h
     subst h
-    have key : ∀ (l : List FieldSpec) (as : List Act), l.mapM (fieldAct cfg dest) = some as →
-        ∀ j (hj : j < l.length), ∃ a, fieldAct cfg dest l[j] = some a ∧ as[j]? = some a := by
-      intro l
-      induction l with
-      | nil => intro as _ j hj; simp at hj
-      | cons f rest ih =>
-        intro as has j hj
-        rw [List.mapM_cons] at has
-        cases hf : fieldAct cfg dest f with
-        | none => simp [hf] at has
-        | some a0 =>
-          cases hr : rest.mapM (fieldAct cfg dest) with
-          | none => simp [hf, hr] at has
-          | some as' =>
-            simp only [hf, hr, Option.pure_def, Option.bind_eq_bind, Option.bind_some,
-              Option.some.injEq] at has
-            subst has
-            cases j with
-            | zero => exact ⟨a0, by simpa using hf, rfl⟩
-            | succ j' =>
-              obtain ⟨a, ha1, ha2⟩ := ih as' hr j' (by simpa using hj)
-              exact ⟨a, by simpa using ha1, by simpa using ha2⟩
-    obtain ⟨a, ha1, ha2⟩ := key fs acts hm i hi
+    obtain ⟨hl, hget⟩ := mapM_some_get (fieldAct cfg dest) fs acts hm
+    refine ⟨by simp [hl], rfl, ?_⟩
+    intro i hi
+    obtain ⟨a, ha1, ha2⟩ := hget i hi
     exact ⟨a, ha1, by simpa using ha2⟩
+
+theorem tableOf_get (cfg : Cfg) (dest : Str) (fs : List FieldSpec) (tbl : List Act)
+    (h : tableOf cfg dest fs = some tbl) (i : Nat) (hi : i < fs.length) :
+    ∃ a, fieldAct cfg dest fs[i] = some a ∧ tbl[i + 1]? = some a :=
+  (tableOf_facts cfg dest fs tbl h).2.2 i hi
+
+/-- what `fieldAct` copies from `get_arg_options`' answer -/
+structure FieldFacts (dest : Str) (f : FieldSpec) (a : Act) (ao : ArgOpts) : Prop where
+  hao : argOptions f = some ao
+  dest : a.dest = dest ++ '.' :: f.name
+  nargs : a.nargs = ao.nargs
+  conv : a.conv = ao.conv
+  choices : a.choices = ao.choices
+  required : a.required = ao.required
+  default : a.default = some ao.default
+  kind : (ao.isBool = false ∧ a.kind = .store) ∨ (ao.isBool = true ∧ ∃ negs, a.kind = .boolOpt negs)
+
+theorem fieldAct_facts (cfg : Cfg) (dest : Str) (f : FieldSpec) (a : Act)
+    (h : fieldAct cfg dest f = some a) : ∃ ao, FieldFacts dest f a ao := by
+  unfold fieldAct at h
+  cases hao : argOptions f with
+  | none => simp [hao] at h
+  | some ao =>
+    simp only [hao, Option.map_some, Option.some.injEq] at h
+    subst h
+    refine ⟨ao, hao, rfl, rfl, rfl, rfl, rfl, rfl, ?_⟩
+    cases hb : ao.isBool
+    · left; simp
+    · right; simp
 
 /-- a non-boolean field becomes a `store` action carrying exactly what `get_arg_options` says -/
 theorem fieldAct_store (cfg : Cfg) (dest : Str) (f : FieldSpec) (ao : ArgOpts)
@@ -736,7 +1735,32 @@ theorem fieldAct_store (cfg : Cfg) (dest : Str) (f : FieldSpec) (ao : ArgOpts)
   simp only [hao, Option.map_some, hb, Bool.false_eq_true, ↓reduceIte]
   exact ⟨_, rfl, rfl, rfl, rfl, rfl, rfl, rfl, rfl⟩
 
+theorem table_field (cfg : Cfg) (dest : Str) (fs : List FieldSpec) (tbl : List Act)
+    (h : tableOf cfg dest fs = some tbl) (i : Nat) (hi : i < fs.length) :
+    ∃ a ao, tbl[i + 1]? = some a ∧ FieldFacts dest fs[i] a ao := by
+  obtain ⟨a, hfa, hta⟩ := tableOf_get cfg dest fs tbl h i hi
+  obtain ⟨ao, hff⟩ := fieldAct_facts cfg dest fs[i] a hfa
+  exact ⟨a, ao, hta, hff⟩
+
 /-- `postprocess` field by field -/
+theorem postAll_idx (dest : Str) (ns : List (Str × Val)) (fs : List FieldSpec)
+    (g : FieldSpec → Nat → Val) (k : Nat)
+    (h : ∀ i (hi : i < fs.length), postprocess fs[i]
+      ((ns.lookup (dest ++ '.' :: fs[i].name)).getD (defaultVal fs[i].default)) = .ok (g fs[i] (k + i))) :
+    postAll dest ns fs = .ok ((fs.zipIdx k).map (fun p => (p.1.name, g p.1 p.2))) := by
+  induction fs generalizing k with
+  | nil => rfl
+  | cons f rest ih =>
+    have h0 := h 0 (by simp)
+    simp only [List.getElem_cons_zero, Nat.add_zero] at h0
+    have ih' := ih (k + 1) (fun i hi => by
+      have := h (i + 1) (by simpa using hi)
+      simp only [List.getElem_cons_succ] at this
+      rw [this]
+      congr 2
+      omega)
+    simp only [postAll, h0, ih', List.zipIdx_cons, List.map_cons]
+
 theorem postAll_eq (dest : Str) (ns : List (Str × Val)) (fs : List FieldSpec) (g : FieldSpec → Val)
     (h : ∀ f ∈ fs, postprocess f ((ns.lookup (dest ++ '.' :: f.name)).getD (defaultVal f.default))
       = .ok (g f)) :
@@ -746,122 +1770,593 @@ theorem postAll_eq (dest : Str) (ns : List (Str × Val)) (fs : List FieldSpec) (
   | cons f rest ih =>
     simp only [postAll, h f (by simp), ih (fun x hx => h x (by simp [hx])), List.map_cons]
 
-theorem argOptions_congr (f g : FieldSpec) (ht : f.ty = g.ty) (hd : f.default = g.default) :
-    argOptions f = argOptions g := by
-  cases f; cases g; simp only at ht hd; subst ht hd; rfl
-
-theorem postprocess_congr (f g : FieldSpec) (raw : Val) (ht : f.ty = g.ty) :
-    postprocess f raw = postprocess g raw := by
-  cases f; cases g; simp only at ht; subst ht; rfl
-
-/-- **C02 (flat pipeline).** For one flat dataclass, a command line of well-formed option segments
-    (exact option strings, tokens fitting `nargs` and converting) is accepted and every field comes
-    out as `postprocess` of what the segments stored over the defaults — any number of fields and
-    segments, any order. -/
+/-- **C02 (flat pipeline, generic form).** For one flat dataclass, a command line of well-formed
+    option segments is accepted and every field comes out as `postprocess` of what the segments
+    stored over the defaults — any number of fields and segments, any order, either spelling.
+    (`c02_roundtrip` below discharges every hypothesis for the canonical command line.) -/
 theorem c02_flat_pipeline (fenv : FEnv) (cfg : Cfg) (dest : Str) (fs : List FieldSpec)
     (tbl : List Act) (htbl : tableOf cfg dest fs = some tbl) (vsegs : List VSeg)
-    (hlex : ∀ v ∈ vsegs, LexOk tbl v.seg)
-    (hok : ∀ v ∈ vsegs, SegOk fenv tbl (tbl.map (fun _ => 0)) v)
-    (hfin : ∀ p ∈ tbl.zipIdx, FinishQuiet fenv
-      { ns := storeAll tbl (initNs tbl) vsegs, extras := [],
-        seen := (vsegs.map (·.seg.idx)).reverse ++ [], counters := tbl.map (fun _ => 0) } p.1 p.2)
-    (g : FieldSpec → Val)
-    (hpost : ∀ f ∈ fs, postprocess f (((storeAll tbl (initNs tbl) vsegs).lookup
-      (dest ++ '.' :: f.name)).getD (defaultVal f.default)) = .ok (g f)) :
-    parseFlat fenv cfg dest fs (render (vsegs.map (·.seg))) =
-      .ok (fs.map (fun f => (f.name, g f))) := by
+    (hlex : ∀ v ∈ vsegs, LexOk' tbl v.eseg)
+    (hok : ∀ v ∈ vsegs, SegOk fenv tbl v)
+    (hfin : ∀ p ∈ tbl.zipIdx, (∃ v ∈ vsegs, v.seg.idx = p.2) ∨
+      (p.1.required = false ∧ QuietDefault fenv p.1))
+    (g : FieldSpec → Nat → Val)
+    (hpost : ∀ i (hi : i < fs.length), postprocess fs[i] (((storeAll tbl (initNs tbl) vsegs).lookup
+      (dest ++ '.' :: fs[i].name)).getD (defaultVal fs[i].default)) = .ok (g fs[i] i)) :
+    parseFlat fenv cfg dest fs (render' (vsegs.map (·.eseg))) =
+      .ok (fs.zipIdx.map (fun p => (p.1.name, g p.1 p.2))) := by
   unfold parseFlat
   simp only [htbl]
-  rw [c02_engine_roundtrip fenv tbl _ vsegs hlex hok hfin]
-  simp only [postAll_eq dest _ fs g hpost]
+  have hal : C04.Aligned tbl (tbl.map (fun _ => 0)) := by
+    refine ⟨by simp, ?_⟩
+    intro i act bs hact _ _
+    have : (tbl.map (fun _ => 0)).getD i 0 = 0 := by
+      simp only [List.getD_eq_getElem?_getD, List.getElem?_map]
+      cases tbl[i]? <;> rfl
+    rw [this]; simp
+  rw [c02_engine_roundtrip fenv tbl _ vsegs hal hlex hok hfin]
+  simp only [postAll_idx dest _ fs g 0 (by simpa using hpost)]
 
-/-- **C02 (any non-boolean field, end to end: what reaches `postprocess`).** In a flat dataclass,
-    if exactly one segment targets field `i` (action `i+1`), the raw value `postprocess` receives
-    for that field is the segment's converted values shaped by the field's `nargs` — wherever the
-    segment stands, whatever the other fields are. The per-annotation lemmas (`c02_field_list`,
-    `…_vtuple`, `…_tuple`, `…_enum`, `…_optional`) then say what `postprocess` makes of it. -/
-theorem c02_flat_field_raw (cfg : Cfg) (dest : Str) (fs : List FieldSpec)
+/-! #### the namespace before the loop: every action's default -/
+
+def initStep (ns : List (Str × Val)) (a : Act) : List (Str × Val) :=
+  match a.default with
+  | some d => if ns.any (fun p => p.1 = a.dest) then ns else ns ++ [(a.dest, d)]
+  | none => ns
+
+theorem initNs_eq (tbl : List Act) : initNs tbl = tbl.foldl initStep [] := rfl
+
+theorem initFold_keep (l : List Act) (acc : List (Str × Val)) (k : Str) (v : Val)
+    (h : acc.lookup k = some v) : (l.foldl initStep acc).lookup k = some v := by
+  induction l generalizing acc with
+  | nil => exact h
+  | cons a rest ih =>
+    simp only [List.foldl_cons]
+    apply ih
+    unfold initStep
+    cases a.default with
+    | none => exact h
+    | some d =>
+      simp only
+      split
+      · exact h
+      · rename_i hany
+        have hk : k ≠ a.dest := by
+          intro hh
+          apply hany
+          simp only [List.any_eq_true, decide_eq_true_eq]
+          exact ⟨(k, v), lookup_some_mem acc k v h, hh⟩
+        rw [lookup_append_other acc a.dest k d hk]
+        exact h
+
+theorem initFold_skip (l : List Act) (acc : List (Str × Val)) (k : Str)
+    (hl : ∀ b ∈ l, b.default ≠ none → b.dest ≠ k)
+    (h : acc.any (fun p => p.1 = k) = false) :
+    (l.foldl initStep acc).any (fun p => p.1 = k) = false := by
+  induction l generalizing acc with
+  | nil => exact h
+  | cons a rest ih =>
+    simp only [List.foldl_cons]
+    apply ih _ (fun b hb => hl b (List.mem_cons_of_mem _ hb))
+    unfold initStep
+    cases hd : a.default with
+    | none => exact h
+    | some d =>
+      simp only
+      split
+      · exact h
+      · have hne := hl a (by simp) (by rw [hd]; simp)
+        simp only [List.any_append, h, List.any_cons, List.any_nil, Bool.or_false, Bool.false_or,
+          decide_eq_false_iff_not]
+        exact hne
+
+/-- **what the namespace holds for an action before the loop**: its `default=`, provided no other
+    action with a default shares its destination -/
+theorem initNs_lookup (tbl : List Act) (i : Nat) (a : Act) (d : Val) (ha : tbl[i]? = some a)
+    (hd : a.default = some d)
+    (hother : ∀ j b, tbl[j]? = some b → j ≠ i → b.default ≠ none → b.dest ≠ a.dest) :
+    (initNs tbl).lookup a.dest = some d := by
+  have hi : i < tbl.length := (List.getElem?_eq_some_iff.mp ha).1
+  have hai : tbl[i] = a := (List.getElem?_eq_some_iff.mp ha).2
+  have hsplit : tbl = tbl.take i ++ a :: tbl.drop (i + 1) := by
+    conv => lhs; rw [← List.take_append_drop i tbl, List.drop_eq_getElem_cons hi, hai]
+  rw [initNs_eq, hsplit, List.foldl_append, List.foldl_cons]
+  apply initFold_keep
+  have hskip := initFold_skip (tbl.take i) [] a.dest (by
+    intro b hb
+    obtain ⟨j, hj⟩ := List.mem_iff_getElem?.mp hb
+    rw [List.getElem?_take] at hj
+    split at hj
+    · rename_i hji
+      exact hother j b hj (by omega)
+    · cases hj) rfl
+  generalize List.foldl initStep [] (List.take i tbl) = X at hskip ⊢
+  unfold initStep
+  simp only [hd, hskip, Bool.false_eq_true, ↓reduceIte]
+  exact lookup_append_same _ a.dest d hskip
+
+/-! #### the headline -/
+
+/-- one field assignment on the command line: which field, through which of its option strings,
+    the typed value written, and the spelling -/
+structure Asg where
+  field : Nat
+  opt : Str
+  val : Val
+  eq : Bool := false
+
+/-- the canonical segment of an assignment: the option string followed by the value's canonical
+    tokens (`fieldToks`); `fieldRaw` is what the engine's converter makes of them -/
+def Asg.vseg (fs : List FieldSpec) (x : Asg) : VSeg :=
+  let ty : FTy := match fs[x.field]? with
+    | some f => f.ty
+    | none => ⟨.sc (.base .str), false⟩
+  ⟨⟨x.field + 1, x.opt, fieldToks ty x.val⟩, fieldRaw ty x.val, x.eq⟩
+
+/-- **the canonical command line** of an assignment list, in the order and spellings given -/
+def canonicalArgv (fs : List FieldSpec) (asg : List Asg) : List Str :=
+  render' (asg.map (fun x => (x.vseg fs).eseg))
+
+/-- **the dataclass the property promises**: every assigned field holds the value written, every
+    other field its default -/
+def expected (fs : List FieldSpec) (asg : List Asg) : List (Str × Val) :=
+  fs.zipIdx.map (fun p => (p.1.name,
+    match asg.find? (fun x => x.field = p.2) with
+    | some x => x.val
+    | none => defaultVal p.1.default))
+
+/-- one assignment is well-formed: an existing field, an expressible value of its annotation, the
+    option string is one the table maps to that field (a positive one for a `bool` field), and —
+    the property's only exclusion — in the spaced spelling every token is one argparse itself lexes
+    as an argument -/
+structure AsgOk (fenv : FEnv) (fs : List FieldSpec) (tbl : List Act) (x : Asg) : Prop where
+  inb : x.field < fs.length
+  val : ∀ f, fs[x.field]? = some f → ValOk fenv f.ty x.val
+  lex : LexOk' tbl (x.vseg fs).eseg
+  pos : ∀ act negs, tbl[x.field + 1]? = some act → act.kind = .boolOpt negs → negs.contains x.opt = false
+
+theorem nodup_getElem_ne {α : Type} (l : List α) (h : l.Nodup) (i j : Nat) (hi : i < l.length)
+    (hj : j < l.length) (hne : i ≠ j) : l[i] ≠ l[j] := by
+  have hp := List.pairwise_iff_getElem.mp h
+  rcases Nat.lt_or_gt_of_ne hne with hlt | hgt
+  · exact hp i j hi hj hlt
+  · exact fun hh => hp j i hj hi hgt hh.symm
+
+theorem dest_inj (dest n1 n2 : Str) (h : dest ++ '.' :: n1 = dest ++ '.' :: n2) : n1 = n2 := by
+  have := List.append_cancel_left h
+  exact (List.cons.inj this).2
+
+/-- per assignment: the segment is accepted and `postprocess` of what it stores is the value -/
+theorem asg_facts (fenv : FEnv) (cfg : Cfg) (dest : Str) (fs : List FieldSpec) (tbl : List Act)
+    (htbl : tableOf cfg dest fs = some tbl) (hdef : ∀ f ∈ fs, DefaultOk f)
+    (x : Asg) (hx : AsgOk fenv fs tbl x) :
+    ∃ a, tbl[x.field + 1]? = some a ∧ a.dest = dest ++ '.' :: (fs[x.field]'hx.inb).name ∧
+      SegOk fenv tbl (x.vseg fs) ∧
+      postprocess (fs[x.field]'hx.inb) (storedVal a (x.vseg fs).seg.opt (x.vseg fs).vals) = .ok x.val := by
+  have hi := hx.inb
+  obtain ⟨a, ao, hta, hff⟩ := table_field cfg dest fs tbl htbl x.field hi
+  have hget : fs[x.field]? = some fs[x.field] := List.getElem?_eq_getElem hi
+  have hact : ActOf ao a x.opt := by
+    refine ⟨hff.nargs, hff.conv, hff.choices, ?_⟩
+    rcases hff.kind with hk | ⟨hb, negs, hk⟩
+    · exact Or.inl hk
+    · exact Or.inr ⟨hb, negs, hk, hx.pos a negs hta hk⟩
+  have hd : fs[x.field].ty.optional = true ∨ fs[x.field].default ≠ .value (.sc .none) := by
+    have := hdef fs[x.field] (List.getElem_mem hi)
+    by_cases hn : fs[x.field].default = .value (.sc .none)
+    · left; unfold DefaultOk at this; rw [hn] at this; exact this
+    · exact Or.inr hn
+  obtain ⟨h1, h2⟩ := field_segOk fenv tbl fs[x.field] ao hff.hao a (x.field + 1) x.opt x.eq hta hact hd
+    x.val (hx.val _ hget)
+  refine ⟨a, hta, hff.dest, ?_, ?_⟩
+  · simpa [Asg.vseg, hget] using h1
+  · simpa [Asg.vseg, hget] using h2
+
+/-- **C02 (headline).** For ONE flat dataclass whose fields have supported annotations (plain
+    int / float / str / bool / Path / Enum, `Literal[…]`, `List[T]`, `Tuple[T, ...]`,
+    `Tuple[T1, …, Tn]`, `Optional` of the non-Literal ones) and keepable defaults, the canonical
+    command line of ANY assignment — any subset of the fields (containing the required ones), in any
+    order, each option written `--opt v…` or `--opt=v` — is accepted by the whole pipeline
+    (`get_arg_options` → argparse → `postprocess`) and yields exactly: the written value (same type
+    tag) in every assigned field, the default in every other field. -/
+theorem c02_roundtrip (fenv : FEnv) (cfg : Cfg) (dest : Str) (fs : List FieldSpec) (tbl : List Act)
+    (htbl : tableOf cfg dest fs = some tbl)
+    (hnames : (fs.map (·.name)).Nodup)
+    (hsup : ∀ f ∈ fs, SupTy f.ty) (hdef : ∀ f ∈ fs, DefaultOk f)
+    (asg : List Asg) (hasg : ∀ x ∈ asg, AsgOk fenv fs tbl x)
+    (hdist : (asg.map (·.field)).Nodup)
+    (hreq : ∀ i (hi : i < fs.length), fs[i].default = .missing → fs[i].ty.optional = false →
+      ∃ x ∈ asg, x.field = i) :
+    parseFlat fenv cfg dest fs (canonicalArgv fs asg) = .ok (expected fs asg) := by
+  obtain ⟨hlen, hhelp, _⟩ := tableOf_facts cfg dest fs tbl htbl
+  have hcanon : canonicalArgv fs asg = render' ((asg.map (Asg.vseg fs)).map (·.eseg)) := by
+    simp [canonicalArgv, List.map_map, Function.comp_def]
+  rw [hcanon]
+  -- distinct fields have distinct destinations
+  have hdestne : ∀ i j (hi : i < fs.length) (hj : j < fs.length), i ≠ j →
+      dest ++ '.' :: fs[i].name ≠ dest ++ '.' :: fs[j].name := by
+    intro i j hi hj hne hh
+    have h1 := nodup_getElem_ne (fs.map (·.name)) hnames i j (by simpa using hi) (by simpa using hj) hne
+    simp only [List.getElem_map] at h1
+    exact h1 (dest_inj dest _ _ hh)
+  -- which action a segment of the list targets
+  have hseg_act : ∀ x ∈ asg, ∀ b, tbl[(x.vseg fs).seg.idx]? = some b →
+      ∃ hi : x.field < fs.length, b.dest = dest ++ '.' :: (fs[x.field]'hi).name := by
+    intro x hx b hb
+    obtain ⟨a, hta, hdst, _, _⟩ := asg_facts fenv cfg dest fs tbl htbl hdef x (hasg x hx)
+    have : (x.vseg fs).seg.idx = x.field + 1 := rfl
+    rw [this, hta] at hb
+    cases hb
+    exact ⟨(hasg x hx).inb, hdst⟩
+  have hexp : expected fs asg = fs.zipIdx.map (fun p => (p.1.name,
+      (fun (f : FieldSpec) (i : Nat) => match asg.find? (fun x => decide (x.field = i)) with
+        | some x => x.val
+        | none => defaultVal f.default) p.1 p.2)) := rfl
+  rw [hexp]
+  refine c02_flat_pipeline fenv cfg dest fs tbl htbl (asg.map (Asg.vseg fs)) ?_ ?_ ?_
+    (fun (f : FieldSpec) (i : Nat) => match asg.find? (fun x => decide (x.field = i)) with
+        | some x => x.val
+        | none => defaultVal f.default) ?_
+  · intro v hv
+    obtain ⟨x, hx, rfl⟩ := List.mem_map.mp hv
+    exact (hasg x hx).lex
+  · intro v hv
+    obtain ⟨x, hx, rfl⟩ := List.mem_map.mp hv
+    obtain ⟨a, _, _, hok, _⟩ := asg_facts fenv cfg dest fs tbl htbl hdef x (hasg x hx)
+    exact hok
+  · -- `finish`: required actions were seen, unseen defaults are quiet
+    intro p hp
+    have hp' : tbl[p.2]? = some p.1 := List.mem_zipIdx_iff_getElem?.mp hp
+    obtain ⟨pa, pi⟩ := p
+    simp only at hp' ⊢
+    by_cases hseen : ∃ x ∈ asg, x.field + 1 = pi
+    · obtain ⟨x, hx, hxi⟩ := hseen
+      exact Or.inl ⟨x.vseg fs, List.mem_map.mpr ⟨x, hx, rfl⟩, hxi⟩
+    · right
+      cases pi with
+      | zero =>
+        rw [hhelp] at hp'
+        have hpa : pa = helpAct := by simpa using hp'.symm
+        subst hpa
+        exact ⟨rfl, fun s hs => by simp [helpAct] at hs⟩
+      | succ i =>
+        have hi : i < fs.length := by
+          have := (List.getElem?_eq_some_iff.mp hp').1
+          omega
+        obtain ⟨a, ao, hta, hff⟩ := table_field cfg dest fs tbl htbl i hi
+        rw [hta] at hp'
+        have hpa : pa = a := by simpa using hp'.symm
+        subst hpa
+        have hfi := List.getElem_mem hi
+        constructor
+        · rw [hff.required]
+          cases hr : ao.required with
+          | false => rfl
+          | true =>
+            obtain ⟨h1, h2⟩ := ao_required fs[i] ao hff.hao hr
+            obtain ⟨x, hx, hxi⟩ := hreq i hi h1 h2
+            exact absurd ⟨x, hx, by rw [hxi]⟩ hseen
+        · intro s hs k
+          rw [hff.default] at hs
+          rw [hff.conv]
+          exact quiet_default fenv fs[i] ao hff.hao (hsup _ hfi) (hdef _ hfi) s (by simpa using hs) k
+  · -- `postprocess` per field
+    intro i hi
+    obtain ⟨a, ao, hta, hff⟩ := table_field cfg dest fs tbl htbl i hi
+    beta_reduce
+    cases hfind : asg.find? (fun x => decide (x.field = i)) with
+    | some x =>
+      have hxm : x ∈ asg := List.mem_of_find?_eq_some hfind
+      have hxi : x.field = i := by simpa using List.find?_some hfind
+      obtain ⟨a', hta', hdst', _, hpp⟩ := asg_facts fenv cfg dest fs tbl htbl hdef x (hasg x hxm)
+      subst hxi
+      rw [hta] at hta'
+      cases hta'
+      -- the segment of `x` is the only writer of this destination
+      have hpair : (asg.map (Asg.vseg fs)).Pairwise (Distinct tbl) := by
+        rw [List.pairwise_map]
+        have hp0 : asg.Pairwise (fun x y => x.field ≠ y.field) := by
+          have := hdist
+          rw [List.Nodup, List.pairwise_map] at this
+          exact this
+        refine List.Pairwise.imp_of_mem ?_ hp0
+        intro y z hy hz hne b c hb hc
+        obtain ⟨hyi, hyd⟩ := hseg_act y hy b hb
+        obtain ⟨hzi, hzd⟩ := hseg_act z hz c hc
+        rw [hyd, hzd]
+        exact hdestne _ _ hyi hzi hne
+      have hlook := lookup_of_writer tbl (initNs tbl) (asg.map (Asg.vseg fs)) hpair (x.vseg fs)
+        (List.mem_map.mpr ⟨x, hxm, rfl⟩) a hta
+      rw [hff.dest] at hlook
+      rw [hlook]
+      simpa using hpp
+    | none =>
+      have hnone : ∀ x ∈ asg, x.field ≠ i := by
+        intro x hx
+        have := List.find?_eq_none.mp hfind x hx
+        simpa using this
+      have hunt := storeAll_untouched tbl (initNs tbl) (asg.map (Asg.vseg fs))
+        (dest ++ '.' :: fs[i].name) (by
+          intro v hv b hb
+          obtain ⟨x, hx, rfl⟩ := List.mem_map.mp hv
+          obtain ⟨hxi, hxd⟩ := hseg_act x hx b hb
+          rw [hxd]
+          exact hdestne _ _ hxi hi (hnone x hx))
+      have hinit := initNs_lookup tbl (i + 1) a ao.default hta hff.default (by
+        intro j b hb hji hbd
+        cases j with
+        | zero =>
+          rw [hhelp] at hb
+          cases hb
+          exact absurd rfl hbd
+        | succ j' =>
+          have hj' : j' < fs.length := by
+            have := (List.getElem?_eq_some_iff.mp hb).1
+            omega
+          obtain ⟨b', bo, htb, hfb⟩ := table_field cfg dest fs tbl htbl j' hj'
+          rw [htb] at hb
+          cases hb
+          rw [hfb.dest, hff.dest]
+          exact hdestne _ _ hj' hi (by omega))
+      rw [hff.dest] at hinit
+      rw [hunt, hinit]
+      simp only [Option.getD_some]
+      rw [ao_default fs[i] ao hff.hao]
+      exact post_default fs[i] (hdef _ (List.getElem_mem hi))
+
+
+/-! #### corollaries of the headline: order, spelling, "written" and "unmentioned" clauses -/
+
+/-- the content of an assignment, without the option string / spelling used to write it -/
+def Asg.core (x : Asg) : Nat × Val := (x.field, x.val)
+
+theorem nodup_map_inj {α β : Type} (f : α → β) : ∀ (l : List α), (l.map f).Nodup →
+    ∀ x ∈ l, ∀ y ∈ l, f x = f y → x = y := by
+  intro l
+  induction l with
+  | nil => intro _ x hx; simp at hx
+  | cons a rest ih =>
+    intro hn x hx y hy hxy
+    simp only [List.map_cons, List.nodup_cons, List.mem_map, not_exists, not_and] at hn
+    rcases List.mem_cons.mp hx with rfl | hx' <;> rcases List.mem_cons.mp hy with rfl | hy'
+    · rfl
+    · exact absurd hxy.symm (hn.1 y hy')
+    · exact absurd hxy (hn.1 x hx')
+    · exact ih hn.2 x hx' y hy' hxy
+
+theorem find_val_iff (asg : List Asg) (hd : (asg.map (·.field)).Nodup) (i : Nat) (v : Val) :
+    (asg.find? (fun x => decide (x.field = i))).map (·.val) = some v ↔ (i, v) ∈ asg.map Asg.core := by
+  constructor
+  · intro h
+    cases hf : asg.find? (fun x => decide (x.field = i)) with
+    | none => simp [hf] at h
+    | some x =>
+      simp only [hf, Option.map_some, Option.some.injEq] at h
+      have hx := List.mem_of_find?_eq_some hf
+      have hxi : x.field = i := by simpa using List.find?_some hf
+      exact List.mem_map.mpr ⟨x, hx, by simp [Asg.core, hxi, h]⟩
+  · intro h
+    obtain ⟨x, hx, hxc⟩ := List.mem_map.mp h
+    simp only [Asg.core, Prod.mk.injEq] at hxc
+    cases hf : asg.find? (fun x => decide (x.field = i)) with
+    | none =>
+      have := List.find?_eq_none.mp hf x hx
+      simp [hxc.1] at this
+    | some y =>
+      have hy := List.mem_of_find?_eq_some hf
+      have hyi : y.field = i := by simpa using List.find?_some hf
+      have hxy : x = y := nodup_map_inj (·.field) asg hd x hx y hy (by rw [hxc.1, hyi])
+      simp [← hxy, hxc.2]
+
+/-- the promised dataclass depends only on WHAT is assigned — not on the order of the options, the
+    option strings chosen, or the spelling -/
+theorem expected_perm (fs : List FieldSpec) (asg1 asg2 : List Asg)
+    (h1 : (asg1.map (·.field)).Nodup) (h2 : (asg2.map (·.field)).Nodup)
+    (hperm : (asg1.map Asg.core).Perm (asg2.map Asg.core)) : expected fs asg1 = expected fs asg2 := by
+  unfold expected
+  apply List.map_congr_left
+  intro p _
+  have key : (asg1.find? (fun x => decide (x.field = p.2))).map (·.val) =
+      (asg2.find? (fun x => decide (x.field = p.2))).map (·.val) := by
+    apply Option.ext
+    intro v
+    rw [find_val_iff asg1 h1, find_val_iff asg2 h2]
+    exact hperm.mem_iff
+  cases hf1 : asg1.find? (fun x => decide (x.field = p.2)) <;>
+    cases hf2 : asg2.find? (fun x => decide (x.field = p.2)) <;> simp_all
+
+/-- **C02 (order and spelling independence, end to end).** Two canonical command lines that assign
+    the same values to the same fields — the option segments in ANY order, each in EITHER spelling
+    (`--opt v` / `--opt=v`), through any of the field's option strings — parse to the same
+    dataclass. -/
+theorem c02_order_spelling_independent (fenv : FEnv) (cfg : Cfg) (dest : Str) (fs : List FieldSpec)
     (tbl : List Act) (htbl : tableOf cfg dest fs = some tbl)
-    (i : Nat) (hi : i < fs.length) (ao : ArgOpts) (hao : argOptions fs[i] = some ao)
-    (hbool : ao.isBool = false)
-    (pre post : List VSeg) (v : VSeg) (hv : v.seg.idx = i + 1)
-    (hpostd : ∀ w ∈ post, ∀ a, tbl[w.seg.idx]? = some a → a.dest ≠ dest ++ '.' :: fs[i].name) :
-    ((storeAll tbl (initNs tbl) (pre ++ v :: post)).lookup (dest ++ '.' :: fs[i].name)).getD
-      (defaultVal fs[i].default) = segVal ao.nargs v.vals := by
-  obtain ⟨a, hfa, hta⟩ := tableOf_get cfg dest fs tbl htbl i hi
-  obtain ⟨a', hfa', _, hdest, hnargs, _⟩ := fieldAct_store cfg dest fs[i] ao hao hbool
-  rw [hfa] at hfa'
-  cases hfa'
-  have hidx : tbl[v.seg.idx]? = some a := by rw [hv]; exact hta
-  have hlook := storeAll_written tbl (initNs tbl) pre post v a hidx
-    (fun w hw c hc' => by rw [hdest]; exact hpostd w hw c hc')
-  rw [hdest, hnargs] at hlook
-  rw [hlook]
-  rfl
+    (hnames : (fs.map (·.name)).Nodup)
+    (hsup : ∀ f ∈ fs, SupTy f.ty) (hdef : ∀ f ∈ fs, DefaultOk f)
+    (asg1 asg2 : List Asg)
+    (hasg1 : ∀ x ∈ asg1, AsgOk fenv fs tbl x) (hasg2 : ∀ x ∈ asg2, AsgOk fenv fs tbl x)
+    (hdist1 : (asg1.map (·.field)).Nodup)
+    (hperm : (asg1.map Asg.core).Perm (asg2.map Asg.core))
+    (hreq : ∀ i (hi : i < fs.length), fs[i].default = .missing → fs[i].ty.optional = false →
+      ∃ x ∈ asg1, x.field = i) :
+    parseFlat fenv cfg dest fs (canonicalArgv fs asg1) =
+      parseFlat fenv cfg dest fs (canonicalArgv fs asg2) := by
+  have hfields : (asg1.map (·.field)).Perm (asg2.map (·.field)) := by
+    have := hperm.map Prod.fst
+    simpa [List.map_map, Function.comp_def, Asg.core] using this
+  have hdist2 : (asg2.map (·.field)).Nodup := (hfields.nodup_iff).mp hdist1
+  have hreq2 : ∀ i (hi : i < fs.length), fs[i].default = .missing → fs[i].ty.optional = false →
+      ∃ x ∈ asg2, x.field = i := by
+    intro i hi hm ho
+    obtain ⟨x, hx, hxi⟩ := hreq i hi hm ho
+    have : i ∈ asg2.map (·.field) := hfields.mem_iff.mp (List.mem_map.mpr ⟨x, hx, hxi⟩)
+    obtain ⟨y, hy, hyi⟩ := List.mem_map.mp this
+    exact ⟨y, hy, hyi⟩
+  rw [c02_roundtrip fenv cfg dest fs tbl htbl hnames hsup hdef asg1 hasg1 hdist1 hreq,
+    c02_roundtrip fenv cfg dest fs tbl htbl hnames hsup hdef asg2 hasg2 hdist2 hreq2,
+    expected_perm fs asg1 asg2 hdist1 hdist2 hperm]
 
-/-- **C02 (a heterogeneous `Tuple[T1,…,Tn]` field, end to end)**: the field's value in the parse
-    result is the tuple of the `n` converted values -/
-theorem c02_flat_tuple_field (cfg : Cfg) (dest : Str) (fs : List FieldSpec)
-    (tbl : List Act) (htbl : tableOf cfg dest fs = some tbl)
-    (i : Nat) (hi : i < fs.length) (bs : List BTy) (hne : allEq (bs.map ITy.base) = false)
-    (hty : fs[i].ty = { inner := .tuple (bs.map ITy.base), optional := false })
-    (hd : fs[i].default ≠ .value (.sc .none))
-    (pre post : List VSeg) (v : VSeg) (hv : v.seg.idx = i + 1) (hlen : 2 ≤ v.vals.length)
-    (hpostd : ∀ w ∈ post, ∀ a, tbl[w.seg.idx]? = some a → a.dest ≠ dest ++ '.' :: fs[i].name) :
-    postprocess fs[i] (((storeAll tbl (initNs tbl) (pre ++ v :: post)).lookup
-      (dest ++ '.' :: fs[i].name)).getD (defaultVal fs[i].default)) = .ok (.tuple v.vals) := by
-  obtain ⟨hopt, hpp⟩ := c02_field_tuple fs[i].name bs hne fs[i].default hd v.vals hlen
-  have hcongr := argOptions_congr fs[i]
-    { name := fs[i].name, ty := { inner := .tuple (bs.map ITy.base), optional := false }, default := fs[i].default }
-    hty rfl
-  cases hao : argOptions fs[i] with
-  | none => rw [← hcongr, hao] at hopt; simp at hopt
-  | some ao =>
-    rw [← hcongr, hao] at hopt
-    simp only [Option.map_some, Option.some.injEq, Prod.mk.injEq] at hopt
-    obtain ⟨hn, _, _, hb⟩ := hopt
-    rw [c02_flat_field_raw cfg dest fs tbl htbl i hi ao hao hb pre post v hv hpostd, hn, ← hpp]
-    exact postprocess_congr _ _ _ hty
+/-- **"every field not mentioned keeps its default"** and **"the field receives the value written"**,
+    read off the promised dataclass -/
+theorem expected_get (fs : List FieldSpec) (asg : List Asg) (i : Nat) (hi : i < fs.length) :
+    (expected fs asg)[i]? = some (fs[i].name,
+      match asg.find? (fun x => decide (x.field = i)) with
+      | some x => x.val
+      | none => defaultVal fs[i].default) := by
+  simp [expected, List.getElem?_map, List.getElem?_zipIdx, List.getElem?_eq_getElem hi] <;> rfl
 
-/-- **C02 (a `List[T]` field, end to end).** In a flat dataclass whose `i`-th field is
-    `name: List[T]` (T a base type other than Any), if exactly one segment targets that field
-    (action `i+1`) with the canonical tokens of `vs`, then the field's value in the parse result is
-    the list `vs` — composed from the table construction, the engine round trip, the last-writer
-    lookup and `postprocess`. -/
-theorem c02_flat_list_field (fenv : FEnv) (cfg : Cfg) (dest : Str) (fs : List FieldSpec)
-    (tbl : List Act) (htbl : tableOf cfg dest fs = some tbl)
-    (i : Nat) (hi : i < fs.length) (b : BTy) (hb : b ≠ .any)
-    (hty : fs[i].ty = { inner := .list (.base b), optional := false })
-    (hd : fs[i].default ≠ .value (.sc .none))
-    (pre post : List VSeg) (v : VSeg) (hv : v.seg.idx = i + 1)
-    (hpostd : ∀ w ∈ post, ∀ a, tbl[w.seg.idx]? = some a → a.dest ≠ dest ++ '.' :: fs[i].name) :
-    postprocess fs[i] (((storeAll tbl (initNs tbl) (pre ++ v :: post)).lookup
-      (dest ++ '.' :: fs[i].name)).getD (defaultVal fs[i].default)) = .ok (.list v.vals) := by
-  obtain ⟨a, hfa, hta⟩ := tableOf_get cfg dest fs tbl htbl i hi
-  obtain ⟨⟨ao, hao, hn, hc, hch⟩, hpp⟩ := c02_field_list fs[i].name b hb fs[i].default hd v.vals
-  -- `argOptions` / `postprocess` look at the annotation and the default only
-  have hao' : argOptions fs[i] = some ao := by
-    rw [← hao]; exact argOptions_congr _ _ hty rfl
-  have hbool : ao.isBool = false := by
-    simp only [argOptions] at hao
-    have hdn : (fs[i].default = DefaultV.value (Val.sc Scalar.none)) = False := by simp [hd]
-    simp only [hdn, decide_false, Bool.false_eq_true, Bool.or_self, ↓reduceIte] at hao
-    cases hcc : containerConv (.base b) with
-    | none => simp [hcc] at hao
-    | some c => simp only [hcc, Option.map_some, Option.some.injEq] at hao; subst hao; rfl
-  obtain ⟨a', hfa', _, hdest, hnargs, _⟩ := fieldAct_store cfg dest fs[i] ao hao' hbool
-  rw [hfa] at hfa'
-  cases hfa'
-  have hidx : tbl[v.seg.idx]? = some a := by rw [hv]; exact hta
-  have hlook := storeAll_written tbl (initNs tbl) pre post v a hidx
-    (fun w hw c hc' => by rw [hdest]; exact hpostd w hw c hc')
-  rw [hdest, hnargs, hn] at hlook
-  rw [hlook]
-  simp only [Option.getD_some]
-  rw [← hpp]
-  exact postprocess_congr _ _ _ hty
+theorem c02_unmentioned_default (fs : List FieldSpec) (asg : List Asg) (i : Nat) (hi : i < fs.length)
+    (hno : ∀ x ∈ asg, x.field ≠ i) :
+    (expected fs asg)[i]? = some (fs[i].name, defaultVal fs[i].default) := by
+  rw [expected_get fs asg i hi]
+  have : asg.find? (fun x => decide (x.field = i)) = none := by
+    rw [List.find?_eq_none]
+    intro x hx
+    simpa using hno x hx
+  simp [this]
 
-/-! ### 5. non-vacuity: a concrete heterogeneous command line meets every hypothesis -/
+theorem c02_written_value (fs : List FieldSpec) (asg : List Asg) (hd : (asg.map (·.field)).Nodup)
+    (x : Asg) (hx : x ∈ asg) (hi : x.field < fs.length) :
+    (expected fs asg)[x.field]? = some (fs[x.field].name, x.val) := by
+  rw [expected_get fs asg x.field hi]
+  have h := (find_val_iff asg hd x.field x.val).mpr (List.mem_map.mpr ⟨x, hx, rfl⟩)
+  cases hf : asg.find? (fun y => decide (y.field = x.field)) with
+  | none => simp [hf] at h
+  | some y => simp only [hf, Option.map_some, Option.some.injEq] at h; simp [h]
+
+/-! ### 9. what the code does NOT satisfy (open findings; the headline excludes exactly these)
+
+  The property lists "Literal/choice … Optional of these … list". Three supported-looking
+  declarations are rejected by the code for EVERY value written:
+
+  * `x: Optional[Literal[1, 2]]` / `x: List[Literal["a", "b"]]` — `is_choice` only sees a top-level
+    Literal, so the field falls into the Optional / List branch, whose `type=` is
+    `get_parsing_fn(Literal[…])` = the typing object itself ("use the type directly",
+    field_parsing.py:146-149); calling it raises TypeError for every token → exit 2
+    "invalid Literal value".  (`Model/Fields.lean` answers "outside the modelled fragment" for
+    these; the action the code builds is written out here and compared with the real parser by the
+    correspondence op `engine.run`.)
+  * `x: int = choice(1, 2, 3, default=1)` — `type=str` with `choices=[1, 2, 3]` (the VALUES,
+    field_wrapper.py:262-268): a token is a `str`, never equal to an `int` → exit 2 "invalid choice".
+-/
+
+/-- `get_parsing_fn(Literal[…])`: the typing object, which cannot be called — every token is a
+    TypeError (argparse: "invalid Literal value") -/
+def literalTypeConv : Conv := .base (.enumName "Literal".toList [])
+
+theorem literalTypeConv_rejects (fenv : FEnv) (k : Nat) (s : Str) :
+    literalTypeConv.apply fenv k s = .typeErr := by
+  simp [literalTypeConv, Conv.apply, BConv.apply]
+
+/-- the action the code builds for `x: Optional[Literal[…]]` (`star = false`, `nargs='?'`) and for
+    `x: List[Literal[…]]` (`star = true`, `nargs='*'`) -/
+def wrappedLiteralAct (star : Bool) (dflt : Val) : Act :=
+  { opts := ["--x".toList], dest := "c.x".toList, kind := .store, nargs := if star then .star else .opt,
+    conv := literalTypeConv, choices := none, required := false, default := some dflt }
+
+/-- **every value written to a wrapped Literal field is rejected** (any token, either wrapper) -/
+theorem wrappedLiteral_rejects (fenv : FEnv) (tbl : List Act) (st : St) (i : Nat) (o t : Str)
+    (ts : List Str) (a : Act) (ha : tbl[i]? = some a) (hk : a.kind = .store)
+    (hc : a.conv = literalTypeConv) :
+    takeAction fenv tbl st i o (t :: ts) = .error (.exit 2 .type) := by
+  have hv : getValue fenv a i st.counters t = .error (.exit 2 .type) := by
+    simp [getValue, hc, literalTypeConv_rejects]
+  have hl : getValuesList fenv a i st.counters (t :: ts) = .error (.exit 2 .type) := by
+    simp [getValuesList, hv]
+  unfold takeAction
+  simp only [ha, hk]
+  rw [getValues_ok_iff, hl]
+
+/-- **the whole run exits with status 2 ("invalid Literal value") whatever value token is written** -/
+theorem wrappedLiteral_run (star : Bool) (t : Str) (hA : classify [helpAct, wrappedLiteralAct star (.sc .none)] t = .ok .A)
+    (hdd : t ≠ ['-', '-']) :
+    runStrict [] [helpAct, wrappedLiteralAct star (.sc .none)] [0, 0] ["--x".toList, t] = .exit 2 .type := by
+  have hopt : classify [helpAct, wrappedLiteralAct star (.sc .none)] "--x".toList =
+      .ok (.O (some 1) "--x".toList none) := by
+    cases star <;> decide
+  have hlex : lexAll [helpAct, wrappedLiteralAct star (.sc .none)] ["--x".toList, t] =
+      .ok [.O (some 1) "--x".toList none, .A] := by
+    have hne : ("--x".toList = ['-', '-']) = False := by decide
+    simp only [lexAll, hne, ↓reduceIte, hopt, hdd, hA]
+  have hget : [helpAct, wrappedLiteralAct star (.sc .none)][1]? = some (wrappedLiteralAct star (.sc .none)) := rfl
+  have hmc : matchCount (wrappedLiteralAct star (.sc .none)).nargs [Tok.A] = some 1 := by
+    cases star <;> rfl
+  have hta := wrappedLiteral_rejects [] [helpAct, wrappedLiteralAct star (.sc .none)]
+    { ns := initNs [helpAct, wrappedLiteralAct star (.sc .none)], extras := [], seen := [], counters := [0, 0] }
+    1 "--x".toList t [] (wrappedLiteralAct star (.sc .none)) hget rfl rfl
+  unfold runStrict run
+  rw [hlex]
+  simp only [List.length_cons, List.length_nil, List.zip_cons_cons, List.zip_nil_right, consume, hget,
+    List.map_cons, List.map_nil, hmc, List.take_succ_cons, List.take_zero, hta]
+  have hkind : ((wrappedLiteralAct star (.sc .none)).kind = ActKind.help) = False := by
+    simp [wrappedLiteralAct]
+  simp [hkind]
+
+/-- the full statement for wrapped Literals: the name of a value of the Literal can be written -/
+def WrappedLiteralRoundTrips : Prop :=
+  ∀ (star : Bool) (vals : List Scalar) (v : Scalar) (n : Str), v ∈ vals → literalName v = some n →
+    NoDash n → ∃ (ns : List (Str × Val)) (cs : List Nat),
+      runStrict [] [helpAct, wrappedLiteralAct star (.sc .none)] [0, 0] ["--x".toList, n] = .ok ns [] cs
+
+/-- **open finding C02-wrapped-literal**: `x: Optional[Literal["a", "b"]]` with `--x a` is rejected -/
+theorem c02_wrapped_literal_witness : ¬ WrappedLiteralRoundTrips := by
+  intro h
+  obtain ⟨ns, cs, hrun⟩ := h false [.str "a".toList, .str "b".toList] (.str "a".toList) "a".toList
+    (by simp) rfl (by simp [NoDash])
+  rw [wrappedLiteral_run false "a".toList (classify_nodash _ _ (by simp [NoDash])) (by decide)] at hrun
+  cases hrun
+
+/-- **Literal, the partial statement** (named exclusion: the Literal is NOT wrapped — `f.ty` is
+    `⟨.literal vals, false⟩`; `ValOk` excludes `Optional[Literal]` by its clause
+    `∀ vals, ty.inner ≠ .literal vals`, and `ValOkN` has no `List[Literal]` case): the name of a value
+    is accepted and `postprocess` returns the value that name denotes. `c02_roundtrip` carries it
+    through the whole pipeline. -/
+theorem c02_literal_partial (fenv : FEnv) (tbl : List Act) (f : FieldSpec) (vals : List Scalar)
+    (hty : f.ty = ⟨.literal vals, false⟩) (ao : ArgOpts) (hao : argOptions f = some ao)
+    (a : Act) (idx : Nat) (opt : Str) (eq : Bool) (ha : tbl[idx]? = some a) (hact : ActOf ao a opt)
+    (s : Scalar) (hs : LastNamed vals s) :
+    ∃ n, literalName s = some n ∧ SegOk fenv tbl ⟨⟨idx, opt, [n]⟩, [.str n], eq⟩ ∧
+      postprocess f (storedVal a opt [.str n]) = .ok (.sc s) := by
+  obtain ⟨n, hn, hlast⟩ := hs
+  exact ⟨n, hn, fld_literal fenv tbl f vals hty ao hao a idx opt eq ha hact s n hn hlast⟩
+
+/-- what `choice(*options)` hands to argparse: `type=str`, `choices=options` — the VALUES. A
+    command-line token is a `str`, so only the `str` options can ever match it. -/
+def choiceAct (options : List Scalar) (dflt : Val) : Act :=
+  { opts := ["--x".toList], dest := "c.x".toList, kind := .store, nargs := .one, conv := .base .str,
+    choices := some (options.filterMap (fun o => match o with
+      | .str s => some s
+      | _ => none)),
+    required := false, default := some dflt }
+
+/-- the full statement for `choice`: the `str()` of any option can be written -/
+def ChoiceRoundTrips : Prop :=
+  ∀ (options : List Scalar) (v : Scalar) (n : Str), v ∈ options → literalName v = some n → NoDash n →
+    ∃ (ns : List (Str × Val)) (cs : List Nat),
+      runStrict [] [helpAct, choiceAct options (.sc v)] [0, 0] ["--x".toList, n] = .ok ns [] cs
+
+/-- **open finding C02-choice-nonstr**: `x: bool = choice(True, False, default=True)` with
+    `--x False` is rejected ("invalid choice") -/
+theorem c02_choice_nonstr_witness : ¬ ChoiceRoundTrips := by
+  intro h
+  obtain ⟨ns, cs, hrun⟩ := h [.bool true, .bool false] (.bool false) "False".toList (by simp) rfl
+    (by simp [NoDash])
+  have hex : runStrict [] [helpAct, choiceAct [.bool true, .bool false] (.sc (.bool false))] [0, 0]
+      ["--x".toList, "False".toList] = .exit 2 .choice := by decide
+  rw [hex] at hrun
+  cases hrun
+
+/-- **`choice` with string options** (the partial statement; named exclusion: the written option is a
+    `str`): the option is accepted and stored as that string -/
+theorem c02_choice_str_partial (fenv : FEnv) (tbl : List Act) (idx : Nat) (options : List Scalar)
+    (dflt : Val) (s : Str) (hs : Scalar.str s ∈ options) (ha : tbl[idx]? = some (choiceAct options dflt))
+    (eq : Bool) :
+    SegOk fenv tbl ⟨⟨idx, "--x".toList, [s]⟩, [.str s], eq⟩ := by
+  apply segOk_choice fenv tbl idx "--x".toList (choiceAct options dflt) _ s eq ha rfl rfl rfl rfl
+  rw [List.mem_filterMap]
+  exact ⟨.str s, hs, rfl⟩
+
+/-! ### 10. non-vacuity: concrete inputs meet every hypothesis -/
 
 def demoTbl : List Act :=
   [ helpAct,
@@ -874,29 +2369,227 @@ example : runStrict [] demoTbl [0, 0, 0] ["--l".toList, "a".toList, "".toList, "
     .ok [("c.n".toList, .sc (.int (-5))), ("c.l".toList, .list [.str "a".toList, .str []])] [] [0, 0, 0] := by
   decide
 
-example : LexOk demoTbl ⟨2, "--l".toList, ["a".toList, [] ]⟩ :=
+/-- `LexOk'` in the spaced spelling with a NEGATIVE NUMBER token, and in the `=` spelling -/
+example : LexOk' demoTbl ⟨⟨1, "--n".toList, ["-5".toList]⟩, false⟩ :=
   ⟨by decide, ⟨_, rfl⟩, by decide, by
-    intro t ht
+    intro _ t ht
     simp only [List.mem_cons, List.not_mem_nil, or_false] at ht
-    rcases ht with h | h <;> subst h <;> simp [NoDash]⟩
+    subst ht
+    exact argTok_of_neg demoTbl _ (by decide) (by decide) (by
+      intro p hp c r hpr
+      simp only [demoTbl, optTable, helpAct] at hp
+      simp at hp
+      rcases hp with h | h | h | h <;> subst h <;> simp at hpr <;> obtain ⟨rfl, _⟩ := hpr <;> decide),
+   fun t ht => by simp [ESeg.eqTok] at ht⟩
 
-/-- the flat pipeline on a concrete dataclass `n: int = 0; l: List[str] = []` registered at `c` -/
+example : LexOk' demoTbl ⟨⟨1, "--n".toList, ["-5".toList]⟩, true⟩ :=
+  ⟨by decide, ⟨_, rfl⟩, by decide, fun h => by simp [ESeg.eqTok] at h,
+   fun t ht => by
+    simp only [ESeg.eqTok, Option.some.injEq] at ht
+    subst ht
+    exact ⟨by decide, by decide⟩⟩
+
+/-- `SegOk` for the boolean action and for a store action -/
+example : SegOk []
+    [helpAct, { opts := ["--f".toList, "--nof".toList], dest := "c.f".toList, kind := .boolOpt ["--nof".toList],
+                nargs := .opt, conv := .base .bool, choices := none, required := false,
+                default := some (.sc (.bool true)) }]
+    ⟨⟨1, "--f".toList, ["False".toList]⟩, [.bool false], true⟩ :=
+  segOk_base [] _ 1 "--f".toList _ .bool [.bool false] true rfl
+    (Or.inr ⟨_, rfl, rfl, by decide, Or.inr ⟨false, rfl⟩⟩) rfl rfl (by simp [arityOk]) (by simp [HasBTy])
+
+/-- a flat dataclass exercising the headline:
+    `num: int = 0; lst: List[str] = []; tup: Tuple[int, str]` (required, heterogeneous);
+    `flag: bool = False; name: str = "dflt"` (a STRING default); `opt: Optional[int] = None` -/
 def demoFs : List FieldSpec :=
-  [ { name := "n".toList, ty := { inner := .sc (.base .int), optional := false }, default := .value (.sc (.int 0)) },
-    { name := "l".toList, ty := { inner := .list (.base .str), optional := false }, default := .value (.list []) } ]
+  [ { name := "num".toList, ty := ⟨.sc (.base .int), false⟩, default := .value (.sc (.int 0)) },
+    { name := "lst".toList, ty := ⟨.list (.base .str), false⟩, default := .value (.list []) },
+    { name := "tup".toList, ty := ⟨.tuple [.base .int, .base .str], false⟩, default := .missing },
+    { name := "flag".toList, ty := ⟨.sc (.base .bool), false⟩, default := .value (.sc (.bool false)) },
+    { name := "name".toList, ty := ⟨.sc (.base .str), false⟩, default := .value (.sc (.str "dflt".toList)) },
+    { name := "opt".toList, ty := ⟨.sc (.base .int), true⟩, default := .value (.sc .none) } ]
 
 def demoCfg : Cfg := { dash := .underscore, gen := .flat, nest := .default }
 
-example : (match parseFlat [] demoCfg "c".toList demoFs
-      ["--l".toList, "a".toList, "".toList, "--n".toList, "-5".toList] with
-    | .ok r => some r | _ => none)
-    = some [("n".toList, .sc (.int (-5))), ("l".toList, .list [.str "a".toList, .str []])] := by
+/-- `--tup 7 x --num -5 --flag=False --lst a ""` : a heterogeneous tuple, a negative number in the
+    spaced spelling, the boolean action in the `=` spelling, a list with an empty string; `name` and
+    `opt` are not mentioned -/
+def demoAsg : List Asg :=
+  [ ⟨2, "--tup".toList, .tuple [.int 7, .str "x".toList], false⟩,
+    ⟨0, "--num".toList, .sc (.int (-5)), false⟩,
+    ⟨3, "--flag".toList, .sc (.bool false), true⟩,
+    ⟨1, "--lst".toList, .list [.str "a".toList, .str []], false⟩ ]
+
+def demoTable : List Act := (tableOf demoCfg "c".toList demoFs).getD []
+
+theorem demoTable_eq : tableOf demoCfg "c".toList demoFs = some demoTable := by
   decide +kernel
 
-/-- the hypotheses of `c02_flat_list_field` are met by that dataclass (field 1, action 2) -/
-example : ∃ tbl, tableOf demoCfg "c".toList demoFs = some tbl ∧ tbl.length = 3 ∧
-    demoFs[1].ty = { inner := .list (.base .str), optional := false } ∧
-    demoFs[1].default ≠ .value (.sc .none) := by
-  refine ⟨_, rfl, by decide +kernel, rfl, by decide⟩
+theorem demoTable_nonNumeric : OptsNonNumeric demoTable := by
+  intro p hp c r hpr
+  have hall : (optTable demoTable).all (fun q => match q.1 with
+      | '-' :: c :: _ => !isDigit c && c != '.'
+      | _ => true) = true := by decide +kernel
+  have := List.all_eq_true.mp hall p hp
+  rw [hpr] at this
+  simpa using this
+
+theorem demoAsg_ok : ∀ x ∈ demoAsg, AsgOk [] demoFs demoTable x := by
+  intro x hx
+  simp only [demoAsg, List.mem_cons, List.not_mem_nil, or_false] at hx
+  rcases hx with rfl | rfl | rfl | rfl
+  · refine ⟨by decide, ?_, ⟨by decide +kernel, ⟨_, rfl⟩, by decide, ?_, ?_⟩, ?_⟩
+    · intro f hf
+      have : f = demoFs[2] := by simpa [demoFs] using hf.symm
+      subst this
+      exact ⟨[.int, .str], rfl, rfl, by simp, by
+        intro p hp
+        simp only [List.zip_cons_cons, List.zip_nil_right, List.mem_cons, List.not_mem_nil, or_false] at hp
+        rcases hp with rfl | rfl
+        · exact ⟨7, rfl⟩
+        · exact ⟨_, rfl⟩⟩
+    · intro _ t ht
+      simp [Asg.vseg, VSeg.eseg, demoFs, fieldToks, valItems, itemTok, tokenOf] at ht
+      rcases ht with rfl | rfl
+      · exact int_argTok demoTable demoTable_nonNumeric 7
+      · exact argTok_of_nodash _ _ (by simp [NoDash])
+    · intro t ht
+      simp [ESeg.eqTok, Asg.vseg, VSeg.eseg] at ht
+    · intro act negs hact hk
+      have : act.kind = .store := by
+        have h2 : demoTable[3]? = some act := hact
+        have : (demoTable[3]?.map (·.kind)) = some .store := by decide +kernel
+        rw [h2] at this
+        simpa using this
+      rw [this] at hk
+      cases hk
+  · refine ⟨by decide, ?_, ⟨by decide +kernel, ⟨_, rfl⟩, by decide, ?_, ?_⟩, ?_⟩
+    · intro f hf
+      have : f = demoFs[0] := by simpa [demoFs] using hf.symm
+      subst this
+      exact ⟨-5, rfl⟩
+    · intro _ t ht
+      simp [Asg.vseg, VSeg.eseg, demoFs, fieldToks, valItems, itemTok, tokenOf] at ht
+      subst ht
+      exact int_argTok demoTable demoTable_nonNumeric (-5)
+    · intro t ht
+      simp [ESeg.eqTok, Asg.vseg, VSeg.eseg] at ht
+    · intro act negs hact hk
+      have : act.kind = .store := by
+        have h2 : demoTable[1]? = some act := hact
+        have : (demoTable[1]?.map (·.kind)) = some .store := by decide +kernel
+        rw [h2] at this
+        simpa using this
+      rw [this] at hk
+      cases hk
+  · refine ⟨by decide, ?_, ⟨by decide +kernel, ⟨_, rfl⟩, by decide, ?_, ?_⟩, ?_⟩
+    · intro f hf
+      have : f = demoFs[3] := by simpa [demoFs] using hf.symm
+      subst this
+      exact ⟨false, rfl⟩
+    · intro h
+      simp [ESeg.eqTok, Asg.vseg, VSeg.eseg, demoFs, fieldToks, valItems, itemTok] at h
+    · intro t _
+      exact eqok_of_optsNoEq demoTable _ (by
+        intro p hp
+        have hall : (optTable demoTable).all (fun q => !q.1.contains '=') = true := by decide +kernel
+        have := List.all_eq_true.mp hall p hp
+        simpa using this) (by decide +kernel) t
+    · intro act negs hact hk
+      have h2 : demoTable[4]? = some act := hact
+      have : (demoTable[4]?.map (·.kind)) = some (.boolOpt ["--noflag".toList]) := by decide +kernel
+      rw [h2] at this
+      simp only [Option.map_some, Option.some.injEq] at this
+      rw [this] at hk
+      cases hk
+      decide
+  · refine ⟨by decide, ?_, ⟨by decide +kernel, ⟨_, rfl⟩, by decide, ?_, ?_⟩, ?_⟩
+    · intro f hf
+      have : f = demoFs[1] := by simpa [demoFs] using hf.symm
+      subst this
+      exact ⟨by decide, by
+        intro s hs
+        simp only [List.mem_cons, List.not_mem_nil, or_false] at hs
+        rcases hs with rfl | rfl <;> exact ⟨_, rfl⟩⟩
+    · intro _ t ht
+      simp [Asg.vseg, VSeg.eseg, demoFs, fieldToks, valItems, itemTok, tokenOf] at ht
+      rcases ht with rfl | rfl <;> exact argTok_of_nodash _ _ (by simp [NoDash])
+    · intro t ht
+      simp [ESeg.eqTok, Asg.vseg, VSeg.eseg] at ht
+    · intro act negs hact hk
+      have : act.kind = .store := by
+        have h2 : demoTable[2]? = some act := hact
+        have : (demoTable[2]?.map (·.kind)) = some .store := by decide +kernel
+        rw [h2] at this
+        simpa using this
+      rw [this] at hk
+      cases hk
+
+/-- **the hypotheses of `c02_roundtrip` are satisfiable by a non-trivial input** — and its conclusion
+    on it: every field written holds its value, `name` keeps its string default, `opt` stays None -/
+theorem demo_roundtrip :
+    parseFlat [] demoCfg "c".toList demoFs (canonicalArgv demoFs demoAsg) = .ok
+      [ ("num".toList, .sc (.int (-5))), ("lst".toList, .list [.str "a".toList, .str []]),
+        ("tup".toList, .tuple [.int 7, .str "x".toList]), ("flag".toList, .sc (.bool false)),
+        ("name".toList, .sc (.str "dflt".toList)), ("opt".toList, .sc .none) ] := by
+  rw [c02_roundtrip [] demoCfg "c".toList demoFs demoTable demoTable_eq (by decide)
+    (by intro f hf; simp only [demoFs, List.mem_cons, List.not_mem_nil, or_false] at hf
+        rcases hf with rfl | rfl | rfl | rfl | rfl | rfl <;> simp [SupTy]
+        exact ⟨[.int, .str], rfl, by simp⟩)
+    (by intro f hf; simp only [demoFs, List.mem_cons, List.not_mem_nil, or_false] at hf
+        rcases hf with rfl | rfl | rfl | rfl | rfl | rfl <;> simp [DefaultOk])
+    demoAsg demoAsg_ok (by decide)
+    (by intro i hi hm ho
+        have : i = 2 := by
+          simp only [demoFs, List.length_cons, List.length_nil] at hi
+          have h6 : i = 0 ∨ i = 1 ∨ i = 2 ∨ i = 3 ∨ i = 4 ∨ i = 5 := by omega
+          rcases h6 with rfl | rfl | rfl | rfl | rfl | rfl <;> simp [demoFs] at hm ⊢
+        subst this
+        unfold demoAsg
+        exact ⟨_, List.mem_cons_self, rfl⟩)]
+  rfl
+
+/-- the same dataclass from the same assignment in another order and with the other spellings -/
+example : parseFlat [] demoCfg "c".toList demoFs (canonicalArgv demoFs demoAsg) =
+    parseFlat [] demoCfg "c".toList demoFs (canonicalArgv demoFs demoAsg.reverse) := by
+  have hperm : (demoAsg.map Asg.core).Perm (demoAsg.reverse.map Asg.core) := by
+    rw [List.map_reverse]; exact (List.reverse_perm _).symm
+  exact c02_order_spelling_independent [] demoCfg "c".toList demoFs demoTable demoTable_eq (by decide)
+    (by intro f hf; simp only [demoFs, List.mem_cons, List.not_mem_nil, or_false] at hf
+        rcases hf with rfl | rfl | rfl | rfl | rfl | rfl <;> simp [SupTy]
+        exact ⟨[.int, .str], rfl, by simp⟩)
+    (by intro f hf; simp only [demoFs, List.mem_cons, List.not_mem_nil, or_false] at hf
+        rcases hf with rfl | rfl | rfl | rfl | rfl | rfl <;> simp [DefaultOk])
+    demoAsg demoAsg.reverse demoAsg_ok (fun x hx => demoAsg_ok x (List.mem_reverse.mp hx)) (by decide) hperm
+    (by intro i hi hm ho
+        have : i = 2 := by
+          simp only [demoFs, List.length_cons, List.length_nil] at hi
+          have h6 : i = 0 ∨ i = 1 ∨ i = 2 ∨ i = 3 ∨ i = 4 ∨ i = 5 := by omega
+          rcases h6 with rfl | rfl | rfl | rfl | rfl | rfl <;> simp [demoFs] at hm ⊢
+        subst this
+        unfold demoAsg
+        exact ⟨_, List.mem_cons_self, rfl⟩)
+
+/-- `c02_tuple_occurrence`: a `Tuple[int, str]` occurrence from an aligned counter -/
+example : getValuesList []
+    { opts := [], dest := [], kind := .store, nargs := .num 2, conv := .tupleCounter [.int, .str],
+      choices := none, required := false, default := none } 1 [0, 4] ["7".toList, "x".toList] =
+    .ok ([.int 7, .str "x".toList], [0, 6]) := by
+  decide
+
+/-- `QuietDefault` for a string default under `type=str`, and its failure under `type=int` (why
+    `DefaultOk` asks for str-typed string defaults) -/
+example : QuietDefault []
+    { opts := [], dest := [], kind := .store, nargs := .one, conv := .base .str,
+      choices := none, required := false, default := some (.sc (.str "7".toList)) } :=
+  fun s _ k => rfl
+
+example : ¬ QuietDefault []
+    { opts := [], dest := [], kind := .store, nargs := .one, conv := .base .int,
+      choices := none, required := false, default := some (.sc (.str "7".toList)) } := by
+  intro h
+  have := h "7".toList rfl 0
+  revert this
+  decide
 
 end SpVerif.C02
